@@ -7,387 +7,769 @@ open Conform
 
 theorem conforms_v20_Abs : entryOK ("v17._Abs", Generated.Ctors.v17.f_abs, Generated.Schemas.v17.s_Abs_13) = true := Generated.Conforms.v17.conforms_v17_Abs
 
+theorem slots_v20_Abs : slotOK ("v17._Abs", Generated.Ctors.v17.f_abs, Generated.Schemas.v17.s_Abs_13) = true := Generated.Conforms.v17.slots_v17_Abs
+
 theorem conforms_v20_Acos : entryOK ("v17._Acos", Generated.Ctors.v17.f_acos, Generated.Schemas.v17.s_Acos_7) = true := Generated.Conforms.v17.conforms_v17_Acos
+
+theorem slots_v20_Acos : slotOK ("v17._Acos", Generated.Ctors.v17.f_acos, Generated.Schemas.v17.s_Acos_7) = true := Generated.Conforms.v17.slots_v17_Acos
 
 theorem conforms_v20_Acosh : entryOK ("v17._Acosh", Generated.Ctors.v17.f_acosh, Generated.Schemas.v17.s_Acosh_9) = true := Generated.Conforms.v17.conforms_v17_Acosh
 
+theorem slots_v20_Acosh : slotOK ("v17._Acosh", Generated.Ctors.v17.f_acosh, Generated.Schemas.v17.s_Acosh_9) = true := Generated.Conforms.v17.slots_v17_Acosh
+
 theorem conforms_v20_Add : entryOK ("v17._Add", Generated.Ctors.v17.f_add, Generated.Schemas.v17.s_Add_14) = true := Generated.Conforms.v17.conforms_v17_Add
+
+theorem slots_v20_Add : slotOK ("v17._Add", Generated.Ctors.v17.f_add, Generated.Schemas.v17.s_Add_14) = true := Generated.Conforms.v17.slots_v17_Add
 
 theorem conforms_v20_AffineGrid : entryOK ("v20._AffineGrid", Generated.Ctors.v20.f_affine_grid, Generated.Schemas.v20.s_AffineGrid_20) = true := by decide +kernel
 
+theorem slots_v20_AffineGrid : slotOK ("v20._AffineGrid", Generated.Ctors.v20.f_affine_grid, Generated.Schemas.v20.s_AffineGrid_20) = true := by decide +kernel
+
 theorem conforms_v20_And : entryOK ("v17._And", Generated.Ctors.v17.f_and_, Generated.Schemas.v17.s_And_7) = true := Generated.Conforms.v17.conforms_v17_And
+
+theorem slots_v20_And : slotOK ("v17._And", Generated.Ctors.v17.f_and_, Generated.Schemas.v17.s_And_7) = true := Generated.Conforms.v17.slots_v17_And
 
 theorem conforms_v20_ArgMax : entryOK ("v17._ArgMax", Generated.Ctors.v17.f_arg_max, Generated.Schemas.v17.s_ArgMax_13) = true := Generated.Conforms.v17.conforms_v17_ArgMax
 
+theorem slots_v20_ArgMax : slotOK ("v17._ArgMax", Generated.Ctors.v17.f_arg_max, Generated.Schemas.v17.s_ArgMax_13) = true := Generated.Conforms.v17.slots_v17_ArgMax
+
 theorem conforms_v20_ArgMin : entryOK ("v17._ArgMin", Generated.Ctors.v17.f_arg_min, Generated.Schemas.v17.s_ArgMin_13) = true := Generated.Conforms.v17.conforms_v17_ArgMin
+
+theorem slots_v20_ArgMin : slotOK ("v17._ArgMin", Generated.Ctors.v17.f_arg_min, Generated.Schemas.v17.s_ArgMin_13) = true := Generated.Conforms.v17.slots_v17_ArgMin
 
 theorem conforms_v20_Asin : entryOK ("v17._Asin", Generated.Ctors.v17.f_asin, Generated.Schemas.v17.s_Asin_7) = true := Generated.Conforms.v17.conforms_v17_Asin
 
+theorem slots_v20_Asin : slotOK ("v17._Asin", Generated.Ctors.v17.f_asin, Generated.Schemas.v17.s_Asin_7) = true := Generated.Conforms.v17.slots_v17_Asin
+
 theorem conforms_v20_Asinh : entryOK ("v17._Asinh", Generated.Ctors.v17.f_asinh, Generated.Schemas.v17.s_Asinh_9) = true := Generated.Conforms.v17.conforms_v17_Asinh
+
+theorem slots_v20_Asinh : slotOK ("v17._Asinh", Generated.Ctors.v17.f_asinh, Generated.Schemas.v17.s_Asinh_9) = true := Generated.Conforms.v17.slots_v17_Asinh
 
 theorem conforms_v20_Atan : entryOK ("v17._Atan", Generated.Ctors.v17.f_atan, Generated.Schemas.v17.s_Atan_7) = true := Generated.Conforms.v17.conforms_v17_Atan
 
+theorem slots_v20_Atan : slotOK ("v17._Atan", Generated.Ctors.v17.f_atan, Generated.Schemas.v17.s_Atan_7) = true := Generated.Conforms.v17.slots_v17_Atan
+
 theorem conforms_v20_Atanh : entryOK ("v17._Atanh", Generated.Ctors.v17.f_atanh, Generated.Schemas.v17.s_Atanh_9) = true := Generated.Conforms.v17.conforms_v17_Atanh
+
+theorem slots_v20_Atanh : slotOK ("v17._Atanh", Generated.Ctors.v17.f_atanh, Generated.Schemas.v17.s_Atanh_9) = true := Generated.Conforms.v17.slots_v17_Atanh
 
 theorem conforms_v20_AveragePool : entryOK ("v19._AveragePool", Generated.Ctors.v19.f_average_pool, Generated.Schemas.v19.s_AveragePool_19) = true := Generated.Conforms.v19.conforms_v19_AveragePool
 
+theorem slots_v20_AveragePool : slotOK ("v19._AveragePool", Generated.Ctors.v19.f_average_pool, Generated.Schemas.v19.s_AveragePool_19) = true := Generated.Conforms.v19.slots_v19_AveragePool
+
 theorem conforms_v20_BatchNormalization : entryOK ("v17._BatchNormalization", Generated.Ctors.v17.f_batch_normalization, Generated.Schemas.v17.s_BatchNormalization_15) = true := Generated.Conforms.v17.conforms_v17_BatchNormalization
+
+theorem slots_v20_BatchNormalization : slotOK ("v17._BatchNormalization", Generated.Ctors.v17.f_batch_normalization, Generated.Schemas.v17.s_BatchNormalization_15) = true := Generated.Conforms.v17.slots_v17_BatchNormalization
 
 theorem conforms_v20_Bernoulli : entryOK ("v17._Bernoulli", Generated.Ctors.v17.f_bernoulli, Generated.Schemas.v17.s_Bernoulli_15) = true := Generated.Conforms.v17.conforms_v17_Bernoulli
 
+theorem slots_v20_Bernoulli : slotOK ("v17._Bernoulli", Generated.Ctors.v17.f_bernoulli, Generated.Schemas.v17.s_Bernoulli_15) = true := Generated.Conforms.v17.slots_v17_Bernoulli
+
 theorem conforms_v20_BitShift : entryOK ("v17._BitShift", Generated.Ctors.v17.f_bit_shift, Generated.Schemas.v17.s_BitShift_11) = true := Generated.Conforms.v17.conforms_v17_BitShift
+
+theorem slots_v20_BitShift : slotOK ("v17._BitShift", Generated.Ctors.v17.f_bit_shift, Generated.Schemas.v17.s_BitShift_11) = true := Generated.Conforms.v17.slots_v17_BitShift
 
 theorem conforms_v20_BitwiseAnd : entryOK ("v18._BitwiseAnd", Generated.Ctors.v18.f_bitwise_and, Generated.Schemas.v18.s_BitwiseAnd_18) = true := Generated.Conforms.v18.conforms_v18_BitwiseAnd
 
+theorem slots_v20_BitwiseAnd : slotOK ("v18._BitwiseAnd", Generated.Ctors.v18.f_bitwise_and, Generated.Schemas.v18.s_BitwiseAnd_18) = true := Generated.Conforms.v18.slots_v18_BitwiseAnd
+
 theorem conforms_v20_BitwiseNot : entryOK ("v18._BitwiseNot", Generated.Ctors.v18.f_bitwise_not, Generated.Schemas.v18.s_BitwiseNot_18) = true := Generated.Conforms.v18.conforms_v18_BitwiseNot
+
+theorem slots_v20_BitwiseNot : slotOK ("v18._BitwiseNot", Generated.Ctors.v18.f_bitwise_not, Generated.Schemas.v18.s_BitwiseNot_18) = true := Generated.Conforms.v18.slots_v18_BitwiseNot
 
 theorem conforms_v20_BitwiseOr : entryOK ("v18._BitwiseOr", Generated.Ctors.v18.f_bitwise_or, Generated.Schemas.v18.s_BitwiseOr_18) = true := Generated.Conforms.v18.conforms_v18_BitwiseOr
 
+theorem slots_v20_BitwiseOr : slotOK ("v18._BitwiseOr", Generated.Ctors.v18.f_bitwise_or, Generated.Schemas.v18.s_BitwiseOr_18) = true := Generated.Conforms.v18.slots_v18_BitwiseOr
+
 theorem conforms_v20_BitwiseXor : entryOK ("v18._BitwiseXor", Generated.Ctors.v18.f_bitwise_xor, Generated.Schemas.v18.s_BitwiseXor_18) = true := Generated.Conforms.v18.conforms_v18_BitwiseXor
+
+theorem slots_v20_BitwiseXor : slotOK ("v18._BitwiseXor", Generated.Ctors.v18.f_bitwise_xor, Generated.Schemas.v18.s_BitwiseXor_18) = true := Generated.Conforms.v18.slots_v18_BitwiseXor
 
 theorem conforms_v20_BlackmanWindow : entryOK ("v17._BlackmanWindow", Generated.Ctors.v17.f_blackman_window, Generated.Schemas.v17.s_BlackmanWindow_17) = true := Generated.Conforms.v17.conforms_v17_BlackmanWindow
 
+theorem slots_v20_BlackmanWindow : slotOK ("v17._BlackmanWindow", Generated.Ctors.v17.f_blackman_window, Generated.Schemas.v17.s_BlackmanWindow_17) = true := Generated.Conforms.v17.slots_v17_BlackmanWindow
+
 theorem conforms_v20_Cast : entryOK ("v19._Cast", Generated.Ctors.v19.f_cast, Generated.Schemas.v19.s_Cast_19) = true := Generated.Conforms.v19.conforms_v19_Cast
+
+theorem slots_v20_Cast : slotOK ("v19._Cast", Generated.Ctors.v19.f_cast, Generated.Schemas.v19.s_Cast_19) = true := Generated.Conforms.v19.slots_v19_Cast
 
 theorem conforms_v20_CastLike : entryOK ("v19._CastLike", Generated.Ctors.v19.f_cast_like, Generated.Schemas.v19.s_CastLike_19) = true := Generated.Conforms.v19.conforms_v19_CastLike
 
+theorem slots_v20_CastLike : slotOK ("v19._CastLike", Generated.Ctors.v19.f_cast_like, Generated.Schemas.v19.s_CastLike_19) = true := Generated.Conforms.v19.slots_v19_CastLike
+
 theorem conforms_v20_Ceil : entryOK ("v17._Ceil", Generated.Ctors.v17.f_ceil, Generated.Schemas.v17.s_Ceil_13) = true := Generated.Conforms.v17.conforms_v17_Ceil
+
+theorem slots_v20_Ceil : slotOK ("v17._Ceil", Generated.Ctors.v17.f_ceil, Generated.Schemas.v17.s_Ceil_13) = true := Generated.Conforms.v17.slots_v17_Ceil
 
 theorem conforms_v20_Celu : entryOK ("v17._Celu", Generated.Ctors.v17.f_celu, Generated.Schemas.v17.s_Celu_12) = true := Generated.Conforms.v17.conforms_v17_Celu
 
+theorem slots_v20_Celu : slotOK ("v17._Celu", Generated.Ctors.v17.f_celu, Generated.Schemas.v17.s_Celu_12) = true := Generated.Conforms.v17.slots_v17_Celu
+
 theorem conforms_v20_CenterCropPad : entryOK ("v18._CenterCropPad", Generated.Ctors.v18.f_center_crop_pad, Generated.Schemas.v18.s_CenterCropPad_18) = true := Generated.Conforms.v18.conforms_v18_CenterCropPad
+
+theorem slots_v20_CenterCropPad : slotOK ("v18._CenterCropPad", Generated.Ctors.v18.f_center_crop_pad, Generated.Schemas.v18.s_CenterCropPad_18) = true := Generated.Conforms.v18.slots_v18_CenterCropPad
 
 theorem conforms_v20_Clip : entryOK ("v17._Clip", Generated.Ctors.v17.f_clip, Generated.Schemas.v17.s_Clip_13) = true := Generated.Conforms.v17.conforms_v17_Clip
 
+theorem slots_v20_Clip : slotOK ("v17._Clip", Generated.Ctors.v17.f_clip, Generated.Schemas.v17.s_Clip_13) = true := Generated.Conforms.v17.slots_v17_Clip
+
 theorem conforms_v20_Col2Im : entryOK ("v18._Col2Im", Generated.Ctors.v18.f_col2_im, Generated.Schemas.v18.s_Col2Im_18) = true := Generated.Conforms.v18.conforms_v18_Col2Im
+
+theorem slots_v20_Col2Im : slotOK ("v18._Col2Im", Generated.Ctors.v18.f_col2_im, Generated.Schemas.v18.s_Col2Im_18) = true := Generated.Conforms.v18.slots_v18_Col2Im
 
 theorem conforms_v20_Compress : entryOK ("v17._Compress", Generated.Ctors.v17.f_compress, Generated.Schemas.v17.s_Compress_11) = true := Generated.Conforms.v17.conforms_v17_Compress
 
+theorem slots_v20_Compress : slotOK ("v17._Compress", Generated.Ctors.v17.f_compress, Generated.Schemas.v17.s_Compress_11) = true := Generated.Conforms.v17.slots_v17_Compress
+
 theorem conforms_v20_Concat : entryOK ("v17._Concat", Generated.Ctors.v17.f_concat, Generated.Schemas.v17.s_Concat_13) = true := Generated.Conforms.v17.conforms_v17_Concat
 
+theorem slots_v20_Concat : slotOK ("v17._Concat", Generated.Ctors.v17.f_concat, Generated.Schemas.v17.s_Concat_13) = true := Generated.Conforms.v17.slots_v17_Concat
+
 theorem conforms_v20_ConcatFromSequence : entryOK ("v17._ConcatFromSequence", Generated.Ctors.v17.f_concat_from_sequence, Generated.Schemas.v17.s_ConcatFromSequence_11) = true := Generated.Conforms.v17.conforms_v17_ConcatFromSequence
+
+theorem slots_v20_ConcatFromSequence : slotOK ("v17._ConcatFromSequence", Generated.Ctors.v17.f_concat_from_sequence, Generated.Schemas.v17.s_ConcatFromSequence_11) = true := Generated.Conforms.v17.slots_v17_ConcatFromSequence
 
 /-- known deviation (findings.d/C11.json): conforms in everything but the absent attribute(s) -/
 theorem conforms_v20_Constant : entryOKExcept ["sparse_value"] ("v19._Constant", Generated.Ctors.v19.f_constant, Generated.Schemas.v19.s_Constant_19) = true := Generated.Conforms.v19.conforms_v19_Constant
 
+theorem slots_v20_Constant : slotOK ("v19._Constant", Generated.Ctors.v19.f_constant, Generated.Schemas.v19.s_Constant_19) = true := Generated.Conforms.v19.slots_v19_Constant
+
 theorem conforms_v20_ConstantOfShape : entryOK ("v20._ConstantOfShape", Generated.Ctors.v20.f_constant_of_shape, Generated.Schemas.v20.s_ConstantOfShape_20) = true := by decide +kernel
+
+theorem slots_v20_ConstantOfShape : slotOK ("v20._ConstantOfShape", Generated.Ctors.v20.f_constant_of_shape, Generated.Schemas.v20.s_ConstantOfShape_20) = true := by decide +kernel
 
 theorem conforms_v20_Conv : entryOK ("v17._Conv", Generated.Ctors.v17.f_conv, Generated.Schemas.v17.s_Conv_11) = true := Generated.Conforms.v17.conforms_v17_Conv
 
+theorem slots_v20_Conv : slotOK ("v17._Conv", Generated.Ctors.v17.f_conv, Generated.Schemas.v17.s_Conv_11) = true := Generated.Conforms.v17.slots_v17_Conv
+
 theorem conforms_v20_ConvInteger : entryOK ("v17._ConvInteger", Generated.Ctors.v17.f_conv_integer, Generated.Schemas.v17.s_ConvInteger_10) = true := Generated.Conforms.v17.conforms_v17_ConvInteger
+
+theorem slots_v20_ConvInteger : slotOK ("v17._ConvInteger", Generated.Ctors.v17.f_conv_integer, Generated.Schemas.v17.s_ConvInteger_10) = true := Generated.Conforms.v17.slots_v17_ConvInteger
 
 theorem conforms_v20_ConvTranspose : entryOK ("v17._ConvTranspose", Generated.Ctors.v17.f_conv_transpose, Generated.Schemas.v17.s_ConvTranspose_11) = true := Generated.Conforms.v17.conforms_v17_ConvTranspose
 
+theorem slots_v20_ConvTranspose : slotOK ("v17._ConvTranspose", Generated.Ctors.v17.f_conv_transpose, Generated.Schemas.v17.s_ConvTranspose_11) = true := Generated.Conforms.v17.slots_v17_ConvTranspose
+
 theorem conforms_v20_Cos : entryOK ("v17._Cos", Generated.Ctors.v17.f_cos, Generated.Schemas.v17.s_Cos_7) = true := Generated.Conforms.v17.conforms_v17_Cos
+
+theorem slots_v20_Cos : slotOK ("v17._Cos", Generated.Ctors.v17.f_cos, Generated.Schemas.v17.s_Cos_7) = true := Generated.Conforms.v17.slots_v17_Cos
 
 theorem conforms_v20_Cosh : entryOK ("v17._Cosh", Generated.Ctors.v17.f_cosh, Generated.Schemas.v17.s_Cosh_9) = true := Generated.Conforms.v17.conforms_v17_Cosh
 
+theorem slots_v20_Cosh : slotOK ("v17._Cosh", Generated.Ctors.v17.f_cosh, Generated.Schemas.v17.s_Cosh_9) = true := Generated.Conforms.v17.slots_v17_Cosh
+
 theorem conforms_v20_CumSum : entryOK ("v17._CumSum", Generated.Ctors.v17.f_cumsum, Generated.Schemas.v17.s_CumSum_14) = true := Generated.Conforms.v17.conforms_v17_CumSum
+
+theorem slots_v20_CumSum : slotOK ("v17._CumSum", Generated.Ctors.v17.f_cumsum, Generated.Schemas.v17.s_CumSum_14) = true := Generated.Conforms.v17.slots_v17_CumSum
 
 theorem conforms_v20_DFT : entryOK ("v20._DFT", Generated.Ctors.v20.f_dft, Generated.Schemas.v20.s_DFT_20) = true := by decide +kernel
 
+theorem slots_v20_DFT : slotOK ("v20._DFT", Generated.Ctors.v20.f_dft, Generated.Schemas.v20.s_DFT_20) = true := by decide +kernel
+
 theorem conforms_v20_DeformConv : entryOK ("v19._DeformConv", Generated.Ctors.v19.f_deform_conv, Generated.Schemas.v19.s_DeformConv_19) = true := Generated.Conforms.v19.conforms_v19_DeformConv
+
+theorem slots_v20_DeformConv : slotOK ("v19._DeformConv", Generated.Ctors.v19.f_deform_conv, Generated.Schemas.v19.s_DeformConv_19) = true := Generated.Conforms.v19.slots_v19_DeformConv
 
 theorem conforms_v20_DepthToSpace : entryOK ("v17._DepthToSpace", Generated.Ctors.v17.f_depth_to_space, Generated.Schemas.v17.s_DepthToSpace_13) = true := Generated.Conforms.v17.conforms_v17_DepthToSpace
 
+theorem slots_v20_DepthToSpace : slotOK ("v17._DepthToSpace", Generated.Ctors.v17.f_depth_to_space, Generated.Schemas.v17.s_DepthToSpace_13) = true := Generated.Conforms.v17.slots_v17_DepthToSpace
+
 theorem conforms_v20_DequantizeLinear : entryOK ("v19._DequantizeLinear", Generated.Ctors.v19.f_dequantize_linear, Generated.Schemas.v19.s_DequantizeLinear_19) = true := Generated.Conforms.v19.conforms_v19_DequantizeLinear
+
+theorem slots_v20_DequantizeLinear : slotOK ("v19._DequantizeLinear", Generated.Ctors.v19.f_dequantize_linear, Generated.Schemas.v19.s_DequantizeLinear_19) = true := Generated.Conforms.v19.slots_v19_DequantizeLinear
 
 theorem conforms_v20_Det : entryOK ("v17._Det", Generated.Ctors.v17.f_det, Generated.Schemas.v17.s_Det_11) = true := Generated.Conforms.v17.conforms_v17_Det
 
+theorem slots_v20_Det : slotOK ("v17._Det", Generated.Ctors.v17.f_det, Generated.Schemas.v17.s_Det_11) = true := Generated.Conforms.v17.slots_v17_Det
+
 theorem conforms_v20_Div : entryOK ("v17._Div", Generated.Ctors.v17.f_div, Generated.Schemas.v17.s_Div_14) = true := Generated.Conforms.v17.conforms_v17_Div
+
+theorem slots_v20_Div : slotOK ("v17._Div", Generated.Ctors.v17.f_div, Generated.Schemas.v17.s_Div_14) = true := Generated.Conforms.v17.slots_v17_Div
 
 theorem conforms_v20_Dropout : entryOK ("v17._Dropout", Generated.Ctors.v17.f_dropout, Generated.Schemas.v17.s_Dropout_13) = true := Generated.Conforms.v17.conforms_v17_Dropout
 
+theorem slots_v20_Dropout : slotOK ("v17._Dropout", Generated.Ctors.v17.f_dropout, Generated.Schemas.v17.s_Dropout_13) = true := Generated.Conforms.v17.slots_v17_Dropout
+
 theorem conforms_v20_DynamicQuantizeLinear : entryOK ("v17._DynamicQuantizeLinear", Generated.Ctors.v17.f_dynamic_quantize_linear, Generated.Schemas.v17.s_DynamicQuantizeLinear_11) = true := Generated.Conforms.v17.conforms_v17_DynamicQuantizeLinear
+
+theorem slots_v20_DynamicQuantizeLinear : slotOK ("v17._DynamicQuantizeLinear", Generated.Ctors.v17.f_dynamic_quantize_linear, Generated.Schemas.v17.s_DynamicQuantizeLinear_11) = true := Generated.Conforms.v17.slots_v17_DynamicQuantizeLinear
 
 theorem conforms_v20_Einsum : entryOK ("v17._Einsum", Generated.Ctors.v17.f_einsum, Generated.Schemas.v17.s_Einsum_12) = true := Generated.Conforms.v17.conforms_v17_Einsum
 
+theorem slots_v20_Einsum : slotOK ("v17._Einsum", Generated.Ctors.v17.f_einsum, Generated.Schemas.v17.s_Einsum_12) = true := Generated.Conforms.v17.slots_v17_Einsum
+
 theorem conforms_v20_Elu : entryOK ("v17._Elu", Generated.Ctors.v17.f_elu, Generated.Schemas.v17.s_Elu_6) = true := Generated.Conforms.v17.conforms_v17_Elu
+
+theorem slots_v20_Elu : slotOK ("v17._Elu", Generated.Ctors.v17.f_elu, Generated.Schemas.v17.s_Elu_6) = true := Generated.Conforms.v17.slots_v17_Elu
 
 theorem conforms_v20_Equal : entryOK ("v19._Equal", Generated.Ctors.v19.f_equal, Generated.Schemas.v19.s_Equal_19) = true := Generated.Conforms.v19.conforms_v19_Equal
 
+theorem slots_v20_Equal : slotOK ("v19._Equal", Generated.Ctors.v19.f_equal, Generated.Schemas.v19.s_Equal_19) = true := Generated.Conforms.v19.slots_v19_Equal
+
 theorem conforms_v20_Erf : entryOK ("v17._Erf", Generated.Ctors.v17.f_erf, Generated.Schemas.v17.s_Erf_13) = true := Generated.Conforms.v17.conforms_v17_Erf
+
+theorem slots_v20_Erf : slotOK ("v17._Erf", Generated.Ctors.v17.f_erf, Generated.Schemas.v17.s_Erf_13) = true := Generated.Conforms.v17.slots_v17_Erf
 
 theorem conforms_v20_Exp : entryOK ("v17._Exp", Generated.Ctors.v17.f_exp, Generated.Schemas.v17.s_Exp_13) = true := Generated.Conforms.v17.conforms_v17_Exp
 
+theorem slots_v20_Exp : slotOK ("v17._Exp", Generated.Ctors.v17.f_exp, Generated.Schemas.v17.s_Exp_13) = true := Generated.Conforms.v17.slots_v17_Exp
+
 theorem conforms_v20_Expand : entryOK ("v17._Expand", Generated.Ctors.v17.f_expand, Generated.Schemas.v17.s_Expand_13) = true := Generated.Conforms.v17.conforms_v17_Expand
+
+theorem slots_v20_Expand : slotOK ("v17._Expand", Generated.Ctors.v17.f_expand, Generated.Schemas.v17.s_Expand_13) = true := Generated.Conforms.v17.slots_v17_Expand
 
 theorem conforms_v20_EyeLike : entryOK ("v17._EyeLike", Generated.Ctors.v17.f_eye_like, Generated.Schemas.v17.s_EyeLike_9) = true := Generated.Conforms.v17.conforms_v17_EyeLike
 
+theorem slots_v20_EyeLike : slotOK ("v17._EyeLike", Generated.Ctors.v17.f_eye_like, Generated.Schemas.v17.s_EyeLike_9) = true := Generated.Conforms.v17.slots_v17_EyeLike
+
 theorem conforms_v20_Flatten : entryOK ("v17._Flatten", Generated.Ctors.v17.f_flatten, Generated.Schemas.v17.s_Flatten_13) = true := Generated.Conforms.v17.conforms_v17_Flatten
+
+theorem slots_v20_Flatten : slotOK ("v17._Flatten", Generated.Ctors.v17.f_flatten, Generated.Schemas.v17.s_Flatten_13) = true := Generated.Conforms.v17.slots_v17_Flatten
 
 theorem conforms_v20_Floor : entryOK ("v17._Floor", Generated.Ctors.v17.f_floor, Generated.Schemas.v17.s_Floor_13) = true := Generated.Conforms.v17.conforms_v17_Floor
 
+theorem slots_v20_Floor : slotOK ("v17._Floor", Generated.Ctors.v17.f_floor, Generated.Schemas.v17.s_Floor_13) = true := Generated.Conforms.v17.slots_v17_Floor
+
 theorem conforms_v20_GRU : entryOK ("v17._GRU", Generated.Ctors.v17.f_gru, Generated.Schemas.v17.s_GRU_14) = true := Generated.Conforms.v17.conforms_v17_GRU
+
+theorem slots_v20_GRU : slotOK ("v17._GRU", Generated.Ctors.v17.f_gru, Generated.Schemas.v17.s_GRU_14) = true := Generated.Conforms.v17.slots_v17_GRU
 
 theorem conforms_v20_Gather : entryOK ("v17._Gather", Generated.Ctors.v17.f_gather, Generated.Schemas.v17.s_Gather_13) = true := Generated.Conforms.v17.conforms_v17_Gather
 
+theorem slots_v20_Gather : slotOK ("v17._Gather", Generated.Ctors.v17.f_gather, Generated.Schemas.v17.s_Gather_13) = true := Generated.Conforms.v17.slots_v17_Gather
+
 theorem conforms_v20_GatherElements : entryOK ("v17._GatherElements", Generated.Ctors.v17.f_gather_elements, Generated.Schemas.v17.s_GatherElements_13) = true := Generated.Conforms.v17.conforms_v17_GatherElements
+
+theorem slots_v20_GatherElements : slotOK ("v17._GatherElements", Generated.Ctors.v17.f_gather_elements, Generated.Schemas.v17.s_GatherElements_13) = true := Generated.Conforms.v17.slots_v17_GatherElements
 
 theorem conforms_v20_GatherND : entryOK ("v17._GatherND", Generated.Ctors.v17.f_gather_nd, Generated.Schemas.v17.s_GatherND_13) = true := Generated.Conforms.v17.conforms_v17_GatherND
 
+theorem slots_v20_GatherND : slotOK ("v17._GatherND", Generated.Ctors.v17.f_gather_nd, Generated.Schemas.v17.s_GatherND_13) = true := Generated.Conforms.v17.slots_v17_GatherND
+
 theorem conforms_v20_Gelu : entryOK ("v20._Gelu", Generated.Ctors.v20.f_gelu, Generated.Schemas.v20.s_Gelu_20) = true := by decide +kernel
+
+theorem slots_v20_Gelu : slotOK ("v20._Gelu", Generated.Ctors.v20.f_gelu, Generated.Schemas.v20.s_Gelu_20) = true := by decide +kernel
 
 theorem conforms_v20_Gemm : entryOK ("v17._Gemm", Generated.Ctors.v17.f_gemm, Generated.Schemas.v17.s_Gemm_13) = true := Generated.Conforms.v17.conforms_v17_Gemm
 
+theorem slots_v20_Gemm : slotOK ("v17._Gemm", Generated.Ctors.v17.f_gemm, Generated.Schemas.v17.s_Gemm_13) = true := Generated.Conforms.v17.slots_v17_Gemm
+
 theorem conforms_v20_GlobalAveragePool : entryOK ("v17._GlobalAveragePool", Generated.Ctors.v17.f_global_average_pool, Generated.Schemas.v17.s_GlobalAveragePool_1) = true := Generated.Conforms.v17.conforms_v17_GlobalAveragePool
+
+theorem slots_v20_GlobalAveragePool : slotOK ("v17._GlobalAveragePool", Generated.Ctors.v17.f_global_average_pool, Generated.Schemas.v17.s_GlobalAveragePool_1) = true := Generated.Conforms.v17.slots_v17_GlobalAveragePool
 
 theorem conforms_v20_GlobalLpPool : entryOK ("v17._GlobalLpPool", Generated.Ctors.v17.f_global_lp_pool, Generated.Schemas.v17.s_GlobalLpPool_2) = true := Generated.Conforms.v17.conforms_v17_GlobalLpPool
 
+theorem slots_v20_GlobalLpPool : slotOK ("v17._GlobalLpPool", Generated.Ctors.v17.f_global_lp_pool, Generated.Schemas.v17.s_GlobalLpPool_2) = true := Generated.Conforms.v17.slots_v17_GlobalLpPool
+
 theorem conforms_v20_GlobalMaxPool : entryOK ("v17._GlobalMaxPool", Generated.Ctors.v17.f_global_max_pool, Generated.Schemas.v17.s_GlobalMaxPool_1) = true := Generated.Conforms.v17.conforms_v17_GlobalMaxPool
+
+theorem slots_v20_GlobalMaxPool : slotOK ("v17._GlobalMaxPool", Generated.Ctors.v17.f_global_max_pool, Generated.Schemas.v17.s_GlobalMaxPool_1) = true := Generated.Conforms.v17.slots_v17_GlobalMaxPool
 
 theorem conforms_v20_Greater : entryOK ("v17._Greater", Generated.Ctors.v17.f_greater, Generated.Schemas.v17.s_Greater_13) = true := Generated.Conforms.v17.conforms_v17_Greater
 
+theorem slots_v20_Greater : slotOK ("v17._Greater", Generated.Ctors.v17.f_greater, Generated.Schemas.v17.s_Greater_13) = true := Generated.Conforms.v17.slots_v17_Greater
+
 theorem conforms_v20_GreaterOrEqual : entryOK ("v17._GreaterOrEqual", Generated.Ctors.v17.f_greater_or_equal, Generated.Schemas.v17.s_GreaterOrEqual_16) = true := Generated.Conforms.v17.conforms_v17_GreaterOrEqual
 
+theorem slots_v20_GreaterOrEqual : slotOK ("v17._GreaterOrEqual", Generated.Ctors.v17.f_greater_or_equal, Generated.Schemas.v17.s_GreaterOrEqual_16) = true := Generated.Conforms.v17.slots_v17_GreaterOrEqual
+
 theorem conforms_v20_GridSample : entryOK ("v20._GridSample", Generated.Ctors.v20.f_grid_sample, Generated.Schemas.v20.s_GridSample_20) = true := by decide +kernel
+
+theorem slots_v20_GridSample : slotOK ("v20._GridSample", Generated.Ctors.v20.f_grid_sample, Generated.Schemas.v20.s_GridSample_20) = true := by decide +kernel
 
 /-- known deviation (findings.d/C11.json): conforms in everything but the absent attribute(s) -/
 theorem conforms_v20_GroupNormalization : entryOKExcept ["@deprecated"] ("v18._GroupNormalization", Generated.Ctors.v18.f_group_normalization, Generated.Schemas.v18.s_GroupNormalization_18) = true := Generated.Conforms.v18.conforms_v18_GroupNormalization
 
+theorem slots_v20_GroupNormalization : slotOK ("v18._GroupNormalization", Generated.Ctors.v18.f_group_normalization, Generated.Schemas.v18.s_GroupNormalization_18) = true := Generated.Conforms.v18.slots_v18_GroupNormalization
+
 theorem conforms_v20_HammingWindow : entryOK ("v17._HammingWindow", Generated.Ctors.v17.f_hamming_window, Generated.Schemas.v17.s_HammingWindow_17) = true := Generated.Conforms.v17.conforms_v17_HammingWindow
+
+theorem slots_v20_HammingWindow : slotOK ("v17._HammingWindow", Generated.Ctors.v17.f_hamming_window, Generated.Schemas.v17.s_HammingWindow_17) = true := Generated.Conforms.v17.slots_v17_HammingWindow
 
 theorem conforms_v20_HannWindow : entryOK ("v17._HannWindow", Generated.Ctors.v17.f_hann_window, Generated.Schemas.v17.s_HannWindow_17) = true := Generated.Conforms.v17.conforms_v17_HannWindow
 
+theorem slots_v20_HannWindow : slotOK ("v17._HannWindow", Generated.Ctors.v17.f_hann_window, Generated.Schemas.v17.s_HannWindow_17) = true := Generated.Conforms.v17.slots_v17_HannWindow
+
 theorem conforms_v20_HardSigmoid : entryOK ("v17._HardSigmoid", Generated.Ctors.v17.f_hard_sigmoid, Generated.Schemas.v17.s_HardSigmoid_6) = true := Generated.Conforms.v17.conforms_v17_HardSigmoid
+
+theorem slots_v20_HardSigmoid : slotOK ("v17._HardSigmoid", Generated.Ctors.v17.f_hard_sigmoid, Generated.Schemas.v17.s_HardSigmoid_6) = true := Generated.Conforms.v17.slots_v17_HardSigmoid
 
 theorem conforms_v20_HardSwish : entryOK ("v17._HardSwish", Generated.Ctors.v17.f_hard_swish, Generated.Schemas.v17.s_HardSwish_14) = true := Generated.Conforms.v17.conforms_v17_HardSwish
 
+theorem slots_v20_HardSwish : slotOK ("v17._HardSwish", Generated.Ctors.v17.f_hard_swish, Generated.Schemas.v17.s_HardSwish_14) = true := Generated.Conforms.v17.slots_v17_HardSwish
+
 theorem conforms_v20_Hardmax : entryOK ("v17._Hardmax", Generated.Ctors.v17.f_hardmax, Generated.Schemas.v17.s_Hardmax_13) = true := Generated.Conforms.v17.conforms_v17_Hardmax
+
+theorem slots_v20_Hardmax : slotOK ("v17._Hardmax", Generated.Ctors.v17.f_hardmax, Generated.Schemas.v17.s_Hardmax_13) = true := Generated.Conforms.v17.slots_v17_Hardmax
 
 theorem conforms_v20_Identity : entryOK ("v19._Identity", Generated.Ctors.v19.f_identity, Generated.Schemas.v19.s_Identity_19) = true := Generated.Conforms.v19.conforms_v19_Identity
 
+theorem slots_v20_Identity : slotOK ("v19._Identity", Generated.Ctors.v19.f_identity, Generated.Schemas.v19.s_Identity_19) = true := Generated.Conforms.v19.slots_v19_Identity
+
 theorem conforms_v20_If : entryOK ("v19._If", Generated.Ctors.v19.f_if_, Generated.Schemas.v19.s_If_19) = true := Generated.Conforms.v19.conforms_v19_If
+
+theorem slots_v20_If : slotOK ("v19._If", Generated.Ctors.v19.f_if_, Generated.Schemas.v19.s_If_19) = true := Generated.Conforms.v19.slots_v19_If
 
 theorem conforms_v20_ImageDecoder : entryOK ("v20._ImageDecoder", Generated.Ctors.v20.f_image_decoder, Generated.Schemas.v20.s_ImageDecoder_20) = true := by decide +kernel
 
+theorem slots_v20_ImageDecoder : slotOK ("v20._ImageDecoder", Generated.Ctors.v20.f_image_decoder, Generated.Schemas.v20.s_ImageDecoder_20) = true := by decide +kernel
+
 theorem conforms_v20_InstanceNormalization : entryOK ("v17._InstanceNormalization", Generated.Ctors.v17.f_instance_normalization, Generated.Schemas.v17.s_InstanceNormalization_6) = true := Generated.Conforms.v17.conforms_v17_InstanceNormalization
+
+theorem slots_v20_InstanceNormalization : slotOK ("v17._InstanceNormalization", Generated.Ctors.v17.f_instance_normalization, Generated.Schemas.v17.s_InstanceNormalization_6) = true := Generated.Conforms.v17.slots_v17_InstanceNormalization
 
 theorem conforms_v20_IsInf : entryOK ("v20._IsInf", Generated.Ctors.v20.f_isinf, Generated.Schemas.v20.s_IsInf_20) = true := by decide +kernel
 
+theorem slots_v20_IsInf : slotOK ("v20._IsInf", Generated.Ctors.v20.f_isinf, Generated.Schemas.v20.s_IsInf_20) = true := by decide +kernel
+
 theorem conforms_v20_IsNaN : entryOK ("v20._IsNaN", Generated.Ctors.v20.f_isnan, Generated.Schemas.v20.s_IsNaN_20) = true := by decide +kernel
+
+theorem slots_v20_IsNaN : slotOK ("v20._IsNaN", Generated.Ctors.v20.f_isnan, Generated.Schemas.v20.s_IsNaN_20) = true := by decide +kernel
 
 theorem conforms_v20_LRN : entryOK ("v17._LRN", Generated.Ctors.v17.f_lrn, Generated.Schemas.v17.s_LRN_13) = true := Generated.Conforms.v17.conforms_v17_LRN
 
+theorem slots_v20_LRN : slotOK ("v17._LRN", Generated.Ctors.v17.f_lrn, Generated.Schemas.v17.s_LRN_13) = true := Generated.Conforms.v17.slots_v17_LRN
+
 theorem conforms_v20_LSTM : entryOK ("v17._LSTM", Generated.Ctors.v17.f_lstm, Generated.Schemas.v17.s_LSTM_14) = true := Generated.Conforms.v17.conforms_v17_LSTM
+
+theorem slots_v20_LSTM : slotOK ("v17._LSTM", Generated.Ctors.v17.f_lstm, Generated.Schemas.v17.s_LSTM_14) = true := Generated.Conforms.v17.slots_v17_LSTM
 
 theorem conforms_v20_LayerNormalization : entryOK ("v17._LayerNormalization", Generated.Ctors.v17.f_layer_normalization, Generated.Schemas.v17.s_LayerNormalization_17) = true := Generated.Conforms.v17.conforms_v17_LayerNormalization
 
+theorem slots_v20_LayerNormalization : slotOK ("v17._LayerNormalization", Generated.Ctors.v17.f_layer_normalization, Generated.Schemas.v17.s_LayerNormalization_17) = true := Generated.Conforms.v17.slots_v17_LayerNormalization
+
 theorem conforms_v20_LeakyRelu : entryOK ("v17._LeakyRelu", Generated.Ctors.v17.f_leaky_relu, Generated.Schemas.v17.s_LeakyRelu_16) = true := Generated.Conforms.v17.conforms_v17_LeakyRelu
+
+theorem slots_v20_LeakyRelu : slotOK ("v17._LeakyRelu", Generated.Ctors.v17.f_leaky_relu, Generated.Schemas.v17.s_LeakyRelu_16) = true := Generated.Conforms.v17.slots_v17_LeakyRelu
 
 theorem conforms_v20_Less : entryOK ("v17._Less", Generated.Ctors.v17.f_less, Generated.Schemas.v17.s_Less_13) = true := Generated.Conforms.v17.conforms_v17_Less
 
+theorem slots_v20_Less : slotOK ("v17._Less", Generated.Ctors.v17.f_less, Generated.Schemas.v17.s_Less_13) = true := Generated.Conforms.v17.slots_v17_Less
+
 theorem conforms_v20_LessOrEqual : entryOK ("v17._LessOrEqual", Generated.Ctors.v17.f_less_or_equal, Generated.Schemas.v17.s_LessOrEqual_16) = true := Generated.Conforms.v17.conforms_v17_LessOrEqual
+
+theorem slots_v20_LessOrEqual : slotOK ("v17._LessOrEqual", Generated.Ctors.v17.f_less_or_equal, Generated.Schemas.v17.s_LessOrEqual_16) = true := Generated.Conforms.v17.slots_v17_LessOrEqual
 
 theorem conforms_v20_Log : entryOK ("v17._Log", Generated.Ctors.v17.f_log, Generated.Schemas.v17.s_Log_13) = true := Generated.Conforms.v17.conforms_v17_Log
 
+theorem slots_v20_Log : slotOK ("v17._Log", Generated.Ctors.v17.f_log, Generated.Schemas.v17.s_Log_13) = true := Generated.Conforms.v17.slots_v17_Log
+
 theorem conforms_v20_LogSoftmax : entryOK ("v17._LogSoftmax", Generated.Ctors.v17.f_log_softmax, Generated.Schemas.v17.s_LogSoftmax_13) = true := Generated.Conforms.v17.conforms_v17_LogSoftmax
+
+theorem slots_v20_LogSoftmax : slotOK ("v17._LogSoftmax", Generated.Ctors.v17.f_log_softmax, Generated.Schemas.v17.s_LogSoftmax_13) = true := Generated.Conforms.v17.slots_v17_LogSoftmax
 
 theorem conforms_v20_Loop : entryOK ("v19._Loop", Generated.Ctors.v19.f_loop, Generated.Schemas.v19.s_Loop_19) = true := Generated.Conforms.v19.conforms_v19_Loop
 
+theorem slots_v20_Loop : slotOK ("v19._Loop", Generated.Ctors.v19.f_loop, Generated.Schemas.v19.s_Loop_19) = true := Generated.Conforms.v19.slots_v19_Loop
+
 theorem conforms_v20_LpNormalization : entryOK ("v17._LpNormalization", Generated.Ctors.v17.f_lp_normalization, Generated.Schemas.v17.s_LpNormalization_1) = true := Generated.Conforms.v17.conforms_v17_LpNormalization
+
+theorem slots_v20_LpNormalization : slotOK ("v17._LpNormalization", Generated.Ctors.v17.f_lp_normalization, Generated.Schemas.v17.s_LpNormalization_1) = true := Generated.Conforms.v17.slots_v17_LpNormalization
 
 theorem conforms_v20_LpPool : entryOK ("v18._LpPool", Generated.Ctors.v18.f_lp_pool, Generated.Schemas.v18.s_LpPool_18) = true := Generated.Conforms.v18.conforms_v18_LpPool
 
+theorem slots_v20_LpPool : slotOK ("v18._LpPool", Generated.Ctors.v18.f_lp_pool, Generated.Schemas.v18.s_LpPool_18) = true := Generated.Conforms.v18.slots_v18_LpPool
+
 theorem conforms_v20_MatMul : entryOK ("v17._MatMul", Generated.Ctors.v17.f_matmul, Generated.Schemas.v17.s_MatMul_13) = true := Generated.Conforms.v17.conforms_v17_MatMul
+
+theorem slots_v20_MatMul : slotOK ("v17._MatMul", Generated.Ctors.v17.f_matmul, Generated.Schemas.v17.s_MatMul_13) = true := Generated.Conforms.v17.slots_v17_MatMul
 
 theorem conforms_v20_MatMulInteger : entryOK ("v17._MatMulInteger", Generated.Ctors.v17.f_matmul_integer, Generated.Schemas.v17.s_MatMulInteger_10) = true := Generated.Conforms.v17.conforms_v17_MatMulInteger
 
+theorem slots_v20_MatMulInteger : slotOK ("v17._MatMulInteger", Generated.Ctors.v17.f_matmul_integer, Generated.Schemas.v17.s_MatMulInteger_10) = true := Generated.Conforms.v17.slots_v17_MatMulInteger
+
 theorem conforms_v20_Max : entryOK ("v17._Max", Generated.Ctors.v17.f_max, Generated.Schemas.v17.s_Max_13) = true := Generated.Conforms.v17.conforms_v17_Max
+
+theorem slots_v20_Max : slotOK ("v17._Max", Generated.Ctors.v17.f_max, Generated.Schemas.v17.s_Max_13) = true := Generated.Conforms.v17.slots_v17_Max
 
 theorem conforms_v20_MaxPool : entryOK ("v17._MaxPool", Generated.Ctors.v17.f_max_pool, Generated.Schemas.v17.s_MaxPool_12) = true := Generated.Conforms.v17.conforms_v17_MaxPool
 
+theorem slots_v20_MaxPool : slotOK ("v17._MaxPool", Generated.Ctors.v17.f_max_pool, Generated.Schemas.v17.s_MaxPool_12) = true := Generated.Conforms.v17.slots_v17_MaxPool
+
 theorem conforms_v20_MaxRoiPool : entryOK ("v17._MaxRoiPool", Generated.Ctors.v17.f_max_roi_pool, Generated.Schemas.v17.s_MaxRoiPool_1) = true := Generated.Conforms.v17.conforms_v17_MaxRoiPool
+
+theorem slots_v20_MaxRoiPool : slotOK ("v17._MaxRoiPool", Generated.Ctors.v17.f_max_roi_pool, Generated.Schemas.v17.s_MaxRoiPool_1) = true := Generated.Conforms.v17.slots_v17_MaxRoiPool
 
 theorem conforms_v20_MaxUnpool : entryOK ("v17._MaxUnpool", Generated.Ctors.v17.f_max_unpool, Generated.Schemas.v17.s_MaxUnpool_11) = true := Generated.Conforms.v17.conforms_v17_MaxUnpool
 
+theorem slots_v20_MaxUnpool : slotOK ("v17._MaxUnpool", Generated.Ctors.v17.f_max_unpool, Generated.Schemas.v17.s_MaxUnpool_11) = true := Generated.Conforms.v17.slots_v17_MaxUnpool
+
 theorem conforms_v20_Mean : entryOK ("v17._Mean", Generated.Ctors.v17.f_mean, Generated.Schemas.v17.s_Mean_13) = true := Generated.Conforms.v17.conforms_v17_Mean
+
+theorem slots_v20_Mean : slotOK ("v17._Mean", Generated.Ctors.v17.f_mean, Generated.Schemas.v17.s_Mean_13) = true := Generated.Conforms.v17.slots_v17_Mean
 
 theorem conforms_v20_MeanVarianceNormalization : entryOK ("v17._MeanVarianceNormalization", Generated.Ctors.v17.f_mean_variance_normalization, Generated.Schemas.v17.s_MeanVarianceNormalization_13) = true := Generated.Conforms.v17.conforms_v17_MeanVarianceNormalization
 
+theorem slots_v20_MeanVarianceNormalization : slotOK ("v17._MeanVarianceNormalization", Generated.Ctors.v17.f_mean_variance_normalization, Generated.Schemas.v17.s_MeanVarianceNormalization_13) = true := Generated.Conforms.v17.slots_v17_MeanVarianceNormalization
+
 theorem conforms_v20_MelWeightMatrix : entryOK ("v17._MelWeightMatrix", Generated.Ctors.v17.f_mel_weight_matrix, Generated.Schemas.v17.s_MelWeightMatrix_17) = true := Generated.Conforms.v17.conforms_v17_MelWeightMatrix
+
+theorem slots_v20_MelWeightMatrix : slotOK ("v17._MelWeightMatrix", Generated.Ctors.v17.f_mel_weight_matrix, Generated.Schemas.v17.s_MelWeightMatrix_17) = true := Generated.Conforms.v17.slots_v17_MelWeightMatrix
 
 theorem conforms_v20_Min : entryOK ("v17._Min", Generated.Ctors.v17.f_min, Generated.Schemas.v17.s_Min_13) = true := Generated.Conforms.v17.conforms_v17_Min
 
+theorem slots_v20_Min : slotOK ("v17._Min", Generated.Ctors.v17.f_min, Generated.Schemas.v17.s_Min_13) = true := Generated.Conforms.v17.slots_v17_Min
+
 theorem conforms_v20_Mish : entryOK ("v18._Mish", Generated.Ctors.v18.f_mish, Generated.Schemas.v18.s_Mish_18) = true := Generated.Conforms.v18.conforms_v18_Mish
+
+theorem slots_v20_Mish : slotOK ("v18._Mish", Generated.Ctors.v18.f_mish, Generated.Schemas.v18.s_Mish_18) = true := Generated.Conforms.v18.slots_v18_Mish
 
 theorem conforms_v20_Mod : entryOK ("v17._Mod", Generated.Ctors.v17.f_mod, Generated.Schemas.v17.s_Mod_13) = true := Generated.Conforms.v17.conforms_v17_Mod
 
+theorem slots_v20_Mod : slotOK ("v17._Mod", Generated.Ctors.v17.f_mod, Generated.Schemas.v17.s_Mod_13) = true := Generated.Conforms.v17.slots_v17_Mod
+
 theorem conforms_v20_Mul : entryOK ("v17._Mul", Generated.Ctors.v17.f_mul, Generated.Schemas.v17.s_Mul_14) = true := Generated.Conforms.v17.conforms_v17_Mul
+
+theorem slots_v20_Mul : slotOK ("v17._Mul", Generated.Ctors.v17.f_mul, Generated.Schemas.v17.s_Mul_14) = true := Generated.Conforms.v17.slots_v17_Mul
 
 theorem conforms_v20_Multinomial : entryOK ("v17._Multinomial", Generated.Ctors.v17.f_multinomial, Generated.Schemas.v17.s_Multinomial_7) = true := Generated.Conforms.v17.conforms_v17_Multinomial
 
+theorem slots_v20_Multinomial : slotOK ("v17._Multinomial", Generated.Ctors.v17.f_multinomial, Generated.Schemas.v17.s_Multinomial_7) = true := Generated.Conforms.v17.slots_v17_Multinomial
+
 theorem conforms_v20_Neg : entryOK ("v17._Neg", Generated.Ctors.v17.f_neg, Generated.Schemas.v17.s_Neg_13) = true := Generated.Conforms.v17.conforms_v17_Neg
+
+theorem slots_v20_Neg : slotOK ("v17._Neg", Generated.Ctors.v17.f_neg, Generated.Schemas.v17.s_Neg_13) = true := Generated.Conforms.v17.slots_v17_Neg
 
 theorem conforms_v20_NegativeLogLikelihoodLoss : entryOK ("v17._NegativeLogLikelihoodLoss", Generated.Ctors.v17.f_negative_log_likelihood_loss, Generated.Schemas.v17.s_NegativeLogLikelihoodLoss_13) = true := Generated.Conforms.v17.conforms_v17_NegativeLogLikelihoodLoss
 
+theorem slots_v20_NegativeLogLikelihoodLoss : slotOK ("v17._NegativeLogLikelihoodLoss", Generated.Ctors.v17.f_negative_log_likelihood_loss, Generated.Schemas.v17.s_NegativeLogLikelihoodLoss_13) = true := Generated.Conforms.v17.slots_v17_NegativeLogLikelihoodLoss
+
 theorem conforms_v20_NonMaxSuppression : entryOK ("v17._NonMaxSuppression", Generated.Ctors.v17.f_non_max_suppression, Generated.Schemas.v17.s_NonMaxSuppression_11) = true := Generated.Conforms.v17.conforms_v17_NonMaxSuppression
+
+theorem slots_v20_NonMaxSuppression : slotOK ("v17._NonMaxSuppression", Generated.Ctors.v17.f_non_max_suppression, Generated.Schemas.v17.s_NonMaxSuppression_11) = true := Generated.Conforms.v17.slots_v17_NonMaxSuppression
 
 theorem conforms_v20_NonZero : entryOK ("v17._NonZero", Generated.Ctors.v17.f_non_zero, Generated.Schemas.v17.s_NonZero_13) = true := Generated.Conforms.v17.conforms_v17_NonZero
 
+theorem slots_v20_NonZero : slotOK ("v17._NonZero", Generated.Ctors.v17.f_non_zero, Generated.Schemas.v17.s_NonZero_13) = true := Generated.Conforms.v17.slots_v17_NonZero
+
 theorem conforms_v20_Not : entryOK ("v17._Not", Generated.Ctors.v17.f_not_, Generated.Schemas.v17.s_Not_1) = true := Generated.Conforms.v17.conforms_v17_Not
+
+theorem slots_v20_Not : slotOK ("v17._Not", Generated.Ctors.v17.f_not_, Generated.Schemas.v17.s_Not_1) = true := Generated.Conforms.v17.slots_v17_Not
 
 theorem conforms_v20_OneHot : entryOK ("v17._OneHot", Generated.Ctors.v17.f_one_hot, Generated.Schemas.v17.s_OneHot_11) = true := Generated.Conforms.v17.conforms_v17_OneHot
 
+theorem slots_v20_OneHot : slotOK ("v17._OneHot", Generated.Ctors.v17.f_one_hot, Generated.Schemas.v17.s_OneHot_11) = true := Generated.Conforms.v17.slots_v17_OneHot
+
 theorem conforms_v20_Optional : entryOK ("v17._Optional", Generated.Ctors.v17.f_optional, Generated.Schemas.v17.s_Optional_15) = true := Generated.Conforms.v17.conforms_v17_Optional
+
+theorem slots_v20_Optional : slotOK ("v17._Optional", Generated.Ctors.v17.f_optional, Generated.Schemas.v17.s_Optional_15) = true := Generated.Conforms.v17.slots_v17_Optional
 
 theorem conforms_v20_OptionalGetElement : entryOK ("v18._OptionalGetElement", Generated.Ctors.v18.f_optional_get_element, Generated.Schemas.v18.s_OptionalGetElement_18) = true := Generated.Conforms.v18.conforms_v18_OptionalGetElement
 
+theorem slots_v20_OptionalGetElement : slotOK ("v18._OptionalGetElement", Generated.Ctors.v18.f_optional_get_element, Generated.Schemas.v18.s_OptionalGetElement_18) = true := Generated.Conforms.v18.slots_v18_OptionalGetElement
+
 theorem conforms_v20_OptionalHasElement : entryOK ("v18._OptionalHasElement", Generated.Ctors.v18.f_optional_has_element, Generated.Schemas.v18.s_OptionalHasElement_18) = true := Generated.Conforms.v18.conforms_v18_OptionalHasElement
+
+theorem slots_v20_OptionalHasElement : slotOK ("v18._OptionalHasElement", Generated.Ctors.v18.f_optional_has_element, Generated.Schemas.v18.s_OptionalHasElement_18) = true := Generated.Conforms.v18.slots_v18_OptionalHasElement
 
 theorem conforms_v20_Or : entryOK ("v17._Or", Generated.Ctors.v17.f_or_, Generated.Schemas.v17.s_Or_7) = true := Generated.Conforms.v17.conforms_v17_Or
 
+theorem slots_v20_Or : slotOK ("v17._Or", Generated.Ctors.v17.f_or_, Generated.Schemas.v17.s_Or_7) = true := Generated.Conforms.v17.slots_v17_Or
+
 theorem conforms_v20_PRelu : entryOK ("v17._PRelu", Generated.Ctors.v17.f_prelu, Generated.Schemas.v17.s_PRelu_16) = true := Generated.Conforms.v17.conforms_v17_PRelu
+
+theorem slots_v20_PRelu : slotOK ("v17._PRelu", Generated.Ctors.v17.f_prelu, Generated.Schemas.v17.s_PRelu_16) = true := Generated.Conforms.v17.slots_v17_PRelu
 
 theorem conforms_v20_Pad : entryOK ("v19._Pad", Generated.Ctors.v19.f_pad, Generated.Schemas.v19.s_Pad_19) = true := Generated.Conforms.v19.conforms_v19_Pad
 
+theorem slots_v20_Pad : slotOK ("v19._Pad", Generated.Ctors.v19.f_pad, Generated.Schemas.v19.s_Pad_19) = true := Generated.Conforms.v19.slots_v19_Pad
+
 theorem conforms_v20_Pow : entryOK ("v17._Pow", Generated.Ctors.v17.f_pow, Generated.Schemas.v17.s_Pow_15) = true := Generated.Conforms.v17.conforms_v17_Pow
+
+theorem slots_v20_Pow : slotOK ("v17._Pow", Generated.Ctors.v17.f_pow, Generated.Schemas.v17.s_Pow_15) = true := Generated.Conforms.v17.slots_v17_Pow
 
 theorem conforms_v20_QLinearConv : entryOK ("v17._QLinearConv", Generated.Ctors.v17.f_qlinear_conv, Generated.Schemas.v17.s_QLinearConv_10) = true := Generated.Conforms.v17.conforms_v17_QLinearConv
 
+theorem slots_v20_QLinearConv : slotOK ("v17._QLinearConv", Generated.Ctors.v17.f_qlinear_conv, Generated.Schemas.v17.s_QLinearConv_10) = true := Generated.Conforms.v17.slots_v17_QLinearConv
+
 theorem conforms_v20_QLinearMatMul : entryOK ("v17._QLinearMatMul", Generated.Ctors.v17.f_qlinear_matmul, Generated.Schemas.v17.s_QLinearMatMul_10) = true := Generated.Conforms.v17.conforms_v17_QLinearMatMul
+
+theorem slots_v20_QLinearMatMul : slotOK ("v17._QLinearMatMul", Generated.Ctors.v17.f_qlinear_matmul, Generated.Schemas.v17.s_QLinearMatMul_10) = true := Generated.Conforms.v17.slots_v17_QLinearMatMul
 
 theorem conforms_v20_QuantizeLinear : entryOK ("v19._QuantizeLinear", Generated.Ctors.v19.f_quantize_linear, Generated.Schemas.v19.s_QuantizeLinear_19) = true := Generated.Conforms.v19.conforms_v19_QuantizeLinear
 
+theorem slots_v20_QuantizeLinear : slotOK ("v19._QuantizeLinear", Generated.Ctors.v19.f_quantize_linear, Generated.Schemas.v19.s_QuantizeLinear_19) = true := Generated.Conforms.v19.slots_v19_QuantizeLinear
+
 theorem conforms_v20_RNN : entryOK ("v17._RNN", Generated.Ctors.v17.f_rnn, Generated.Schemas.v17.s_RNN_14) = true := Generated.Conforms.v17.conforms_v17_RNN
+
+theorem slots_v20_RNN : slotOK ("v17._RNN", Generated.Ctors.v17.f_rnn, Generated.Schemas.v17.s_RNN_14) = true := Generated.Conforms.v17.slots_v17_RNN
 
 theorem conforms_v20_RandomNormal : entryOK ("v17._RandomNormal", Generated.Ctors.v17.f_random_normal, Generated.Schemas.v17.s_RandomNormal_1) = true := Generated.Conforms.v17.conforms_v17_RandomNormal
 
+theorem slots_v20_RandomNormal : slotOK ("v17._RandomNormal", Generated.Ctors.v17.f_random_normal, Generated.Schemas.v17.s_RandomNormal_1) = true := Generated.Conforms.v17.slots_v17_RandomNormal
+
 theorem conforms_v20_RandomNormalLike : entryOK ("v17._RandomNormalLike", Generated.Ctors.v17.f_random_normal_like, Generated.Schemas.v17.s_RandomNormalLike_1) = true := Generated.Conforms.v17.conforms_v17_RandomNormalLike
+
+theorem slots_v20_RandomNormalLike : slotOK ("v17._RandomNormalLike", Generated.Ctors.v17.f_random_normal_like, Generated.Schemas.v17.s_RandomNormalLike_1) = true := Generated.Conforms.v17.slots_v17_RandomNormalLike
 
 theorem conforms_v20_RandomUniform : entryOK ("v17._RandomUniform", Generated.Ctors.v17.f_random_uniform, Generated.Schemas.v17.s_RandomUniform_1) = true := Generated.Conforms.v17.conforms_v17_RandomUniform
 
+theorem slots_v20_RandomUniform : slotOK ("v17._RandomUniform", Generated.Ctors.v17.f_random_uniform, Generated.Schemas.v17.s_RandomUniform_1) = true := Generated.Conforms.v17.slots_v17_RandomUniform
+
 theorem conforms_v20_RandomUniformLike : entryOK ("v17._RandomUniformLike", Generated.Ctors.v17.f_random_uniform_like, Generated.Schemas.v17.s_RandomUniformLike_1) = true := Generated.Conforms.v17.conforms_v17_RandomUniformLike
+
+theorem slots_v20_RandomUniformLike : slotOK ("v17._RandomUniformLike", Generated.Ctors.v17.f_random_uniform_like, Generated.Schemas.v17.s_RandomUniformLike_1) = true := Generated.Conforms.v17.slots_v17_RandomUniformLike
 
 theorem conforms_v20_Range : entryOK ("v17._Range", Generated.Ctors.v17.f_range, Generated.Schemas.v17.s_Range_11) = true := Generated.Conforms.v17.conforms_v17_Range
 
+theorem slots_v20_Range : slotOK ("v17._Range", Generated.Ctors.v17.f_range, Generated.Schemas.v17.s_Range_11) = true := Generated.Conforms.v17.slots_v17_Range
+
 theorem conforms_v20_Reciprocal : entryOK ("v17._Reciprocal", Generated.Ctors.v17.f_reciprocal, Generated.Schemas.v17.s_Reciprocal_13) = true := Generated.Conforms.v17.conforms_v17_Reciprocal
+
+theorem slots_v20_Reciprocal : slotOK ("v17._Reciprocal", Generated.Ctors.v17.f_reciprocal, Generated.Schemas.v17.s_Reciprocal_13) = true := Generated.Conforms.v17.slots_v17_Reciprocal
 
 theorem conforms_v20_ReduceL1 : entryOK ("v18._ReduceL1", Generated.Ctors.v18.f_reduce_l1, Generated.Schemas.v18.s_ReduceL1_18) = true := Generated.Conforms.v18.conforms_v18_ReduceL1
 
+theorem slots_v20_ReduceL1 : slotOK ("v18._ReduceL1", Generated.Ctors.v18.f_reduce_l1, Generated.Schemas.v18.s_ReduceL1_18) = true := Generated.Conforms.v18.slots_v18_ReduceL1
+
 theorem conforms_v20_ReduceL2 : entryOK ("v18._ReduceL2", Generated.Ctors.v18.f_reduce_l2, Generated.Schemas.v18.s_ReduceL2_18) = true := Generated.Conforms.v18.conforms_v18_ReduceL2
+
+theorem slots_v20_ReduceL2 : slotOK ("v18._ReduceL2", Generated.Ctors.v18.f_reduce_l2, Generated.Schemas.v18.s_ReduceL2_18) = true := Generated.Conforms.v18.slots_v18_ReduceL2
 
 theorem conforms_v20_ReduceLogSum : entryOK ("v18._ReduceLogSum", Generated.Ctors.v18.f_reduce_log_sum, Generated.Schemas.v18.s_ReduceLogSum_18) = true := Generated.Conforms.v18.conforms_v18_ReduceLogSum
 
+theorem slots_v20_ReduceLogSum : slotOK ("v18._ReduceLogSum", Generated.Ctors.v18.f_reduce_log_sum, Generated.Schemas.v18.s_ReduceLogSum_18) = true := Generated.Conforms.v18.slots_v18_ReduceLogSum
+
 theorem conforms_v20_ReduceLogSumExp : entryOK ("v18._ReduceLogSumExp", Generated.Ctors.v18.f_reduce_log_sum_exp, Generated.Schemas.v18.s_ReduceLogSumExp_18) = true := Generated.Conforms.v18.conforms_v18_ReduceLogSumExp
+
+theorem slots_v20_ReduceLogSumExp : slotOK ("v18._ReduceLogSumExp", Generated.Ctors.v18.f_reduce_log_sum_exp, Generated.Schemas.v18.s_ReduceLogSumExp_18) = true := Generated.Conforms.v18.slots_v18_ReduceLogSumExp
 
 theorem conforms_v20_ReduceMax : entryOK ("v20._ReduceMax", Generated.Ctors.v20.f_reduce_max, Generated.Schemas.v20.s_ReduceMax_20) = true := by decide +kernel
 
+theorem slots_v20_ReduceMax : slotOK ("v20._ReduceMax", Generated.Ctors.v20.f_reduce_max, Generated.Schemas.v20.s_ReduceMax_20) = true := by decide +kernel
+
 theorem conforms_v20_ReduceMean : entryOK ("v18._ReduceMean", Generated.Ctors.v18.f_reduce_mean, Generated.Schemas.v18.s_ReduceMean_18) = true := Generated.Conforms.v18.conforms_v18_ReduceMean
+
+theorem slots_v20_ReduceMean : slotOK ("v18._ReduceMean", Generated.Ctors.v18.f_reduce_mean, Generated.Schemas.v18.s_ReduceMean_18) = true := Generated.Conforms.v18.slots_v18_ReduceMean
 
 theorem conforms_v20_ReduceMin : entryOK ("v20._ReduceMin", Generated.Ctors.v20.f_reduce_min, Generated.Schemas.v20.s_ReduceMin_20) = true := by decide +kernel
 
+theorem slots_v20_ReduceMin : slotOK ("v20._ReduceMin", Generated.Ctors.v20.f_reduce_min, Generated.Schemas.v20.s_ReduceMin_20) = true := by decide +kernel
+
 theorem conforms_v20_ReduceProd : entryOK ("v18._ReduceProd", Generated.Ctors.v18.f_reduce_prod, Generated.Schemas.v18.s_ReduceProd_18) = true := Generated.Conforms.v18.conforms_v18_ReduceProd
+
+theorem slots_v20_ReduceProd : slotOK ("v18._ReduceProd", Generated.Ctors.v18.f_reduce_prod, Generated.Schemas.v18.s_ReduceProd_18) = true := Generated.Conforms.v18.slots_v18_ReduceProd
 
 theorem conforms_v20_ReduceSum : entryOK ("v17._ReduceSum", Generated.Ctors.v17.f_reduce_sum, Generated.Schemas.v17.s_ReduceSum_13) = true := Generated.Conforms.v17.conforms_v17_ReduceSum
 
+theorem slots_v20_ReduceSum : slotOK ("v17._ReduceSum", Generated.Ctors.v17.f_reduce_sum, Generated.Schemas.v17.s_ReduceSum_13) = true := Generated.Conforms.v17.slots_v17_ReduceSum
+
 theorem conforms_v20_ReduceSumSquare : entryOK ("v18._ReduceSumSquare", Generated.Ctors.v18.f_reduce_sum_square, Generated.Schemas.v18.s_ReduceSumSquare_18) = true := Generated.Conforms.v18.conforms_v18_ReduceSumSquare
+
+theorem slots_v20_ReduceSumSquare : slotOK ("v18._ReduceSumSquare", Generated.Ctors.v18.f_reduce_sum_square, Generated.Schemas.v18.s_ReduceSumSquare_18) = true := Generated.Conforms.v18.slots_v18_ReduceSumSquare
 
 theorem conforms_v20_RegexFullMatch : entryOK ("v20._RegexFullMatch", Generated.Ctors.v20.f_regex_full_match, Generated.Schemas.v20.s_RegexFullMatch_20) = true := by decide +kernel
 
+theorem slots_v20_RegexFullMatch : slotOK ("v20._RegexFullMatch", Generated.Ctors.v20.f_regex_full_match, Generated.Schemas.v20.s_RegexFullMatch_20) = true := by decide +kernel
+
 theorem conforms_v20_Relu : entryOK ("v17._Relu", Generated.Ctors.v17.f_relu, Generated.Schemas.v17.s_Relu_14) = true := Generated.Conforms.v17.conforms_v17_Relu
+
+theorem slots_v20_Relu : slotOK ("v17._Relu", Generated.Ctors.v17.f_relu, Generated.Schemas.v17.s_Relu_14) = true := Generated.Conforms.v17.slots_v17_Relu
 
 theorem conforms_v20_Reshape : entryOK ("v19._Reshape", Generated.Ctors.v19.f_reshape, Generated.Schemas.v19.s_Reshape_19) = true := Generated.Conforms.v19.conforms_v19_Reshape
 
+theorem slots_v20_Reshape : slotOK ("v19._Reshape", Generated.Ctors.v19.f_reshape, Generated.Schemas.v19.s_Reshape_19) = true := Generated.Conforms.v19.slots_v19_Reshape
+
 theorem conforms_v20_Resize : entryOK ("v19._Resize", Generated.Ctors.v19.f_resize, Generated.Schemas.v19.s_Resize_19) = true := Generated.Conforms.v19.conforms_v19_Resize
+
+theorem slots_v20_Resize : slotOK ("v19._Resize", Generated.Ctors.v19.f_resize, Generated.Schemas.v19.s_Resize_19) = true := Generated.Conforms.v19.slots_v19_Resize
 
 theorem conforms_v20_ReverseSequence : entryOK ("v17._ReverseSequence", Generated.Ctors.v17.f_reverse_sequence, Generated.Schemas.v17.s_ReverseSequence_10) = true := Generated.Conforms.v17.conforms_v17_ReverseSequence
 
+theorem slots_v20_ReverseSequence : slotOK ("v17._ReverseSequence", Generated.Ctors.v17.f_reverse_sequence, Generated.Schemas.v17.s_ReverseSequence_10) = true := Generated.Conforms.v17.slots_v17_ReverseSequence
+
 theorem conforms_v20_RoiAlign : entryOK ("v17._RoiAlign", Generated.Ctors.v17.f_roi_align, Generated.Schemas.v17.s_RoiAlign_16) = true := Generated.Conforms.v17.conforms_v17_RoiAlign
+
+theorem slots_v20_RoiAlign : slotOK ("v17._RoiAlign", Generated.Ctors.v17.f_roi_align, Generated.Schemas.v17.s_RoiAlign_16) = true := Generated.Conforms.v17.slots_v17_RoiAlign
 
 theorem conforms_v20_Round : entryOK ("v17._Round", Generated.Ctors.v17.f_round, Generated.Schemas.v17.s_Round_11) = true := Generated.Conforms.v17.conforms_v17_Round
 
+theorem slots_v20_Round : slotOK ("v17._Round", Generated.Ctors.v17.f_round, Generated.Schemas.v17.s_Round_11) = true := Generated.Conforms.v17.slots_v17_Round
+
 theorem conforms_v20_STFT : entryOK ("v17._STFT", Generated.Ctors.v17.f_stft, Generated.Schemas.v17.s_STFT_17) = true := Generated.Conforms.v17.conforms_v17_STFT
+
+theorem slots_v20_STFT : slotOK ("v17._STFT", Generated.Ctors.v17.f_stft, Generated.Schemas.v17.s_STFT_17) = true := Generated.Conforms.v17.slots_v17_STFT
 
 theorem conforms_v20_Scan : entryOK ("v19._Scan", Generated.Ctors.v19.f_scan, Generated.Schemas.v19.s_Scan_19) = true := Generated.Conforms.v19.conforms_v19_Scan
 
+theorem slots_v20_Scan : slotOK ("v19._Scan", Generated.Ctors.v19.f_scan, Generated.Schemas.v19.s_Scan_19) = true := Generated.Conforms.v19.slots_v19_Scan
+
 theorem conforms_v20_ScatterElements : entryOK ("v18._ScatterElements", Generated.Ctors.v18.f_scatter_elements, Generated.Schemas.v18.s_ScatterElements_18) = true := Generated.Conforms.v18.conforms_v18_ScatterElements
+
+theorem slots_v20_ScatterElements : slotOK ("v18._ScatterElements", Generated.Ctors.v18.f_scatter_elements, Generated.Schemas.v18.s_ScatterElements_18) = true := Generated.Conforms.v18.slots_v18_ScatterElements
 
 theorem conforms_v20_ScatterND : entryOK ("v18._ScatterND", Generated.Ctors.v18.f_scatter_nd, Generated.Schemas.v18.s_ScatterND_18) = true := Generated.Conforms.v18.conforms_v18_ScatterND
 
+theorem slots_v20_ScatterND : slotOK ("v18._ScatterND", Generated.Ctors.v18.f_scatter_nd, Generated.Schemas.v18.s_ScatterND_18) = true := Generated.Conforms.v18.slots_v18_ScatterND
+
 theorem conforms_v20_Selu : entryOK ("v17._Selu", Generated.Ctors.v17.f_selu, Generated.Schemas.v17.s_Selu_6) = true := Generated.Conforms.v17.conforms_v17_Selu
+
+theorem slots_v20_Selu : slotOK ("v17._Selu", Generated.Ctors.v17.f_selu, Generated.Schemas.v17.s_Selu_6) = true := Generated.Conforms.v17.slots_v17_Selu
 
 theorem conforms_v20_SequenceAt : entryOK ("v17._SequenceAt", Generated.Ctors.v17.f_sequence_at, Generated.Schemas.v17.s_SequenceAt_11) = true := Generated.Conforms.v17.conforms_v17_SequenceAt
 
+theorem slots_v20_SequenceAt : slotOK ("v17._SequenceAt", Generated.Ctors.v17.f_sequence_at, Generated.Schemas.v17.s_SequenceAt_11) = true := Generated.Conforms.v17.slots_v17_SequenceAt
+
 theorem conforms_v20_SequenceConstruct : entryOK ("v17._SequenceConstruct", Generated.Ctors.v17.f_sequence_construct, Generated.Schemas.v17.s_SequenceConstruct_11) = true := Generated.Conforms.v17.conforms_v17_SequenceConstruct
+
+theorem slots_v20_SequenceConstruct : slotOK ("v17._SequenceConstruct", Generated.Ctors.v17.f_sequence_construct, Generated.Schemas.v17.s_SequenceConstruct_11) = true := Generated.Conforms.v17.slots_v17_SequenceConstruct
 
 theorem conforms_v20_SequenceEmpty : entryOK ("v17._SequenceEmpty", Generated.Ctors.v17.f_sequence_empty, Generated.Schemas.v17.s_SequenceEmpty_11) = true := Generated.Conforms.v17.conforms_v17_SequenceEmpty
 
+theorem slots_v20_SequenceEmpty : slotOK ("v17._SequenceEmpty", Generated.Ctors.v17.f_sequence_empty, Generated.Schemas.v17.s_SequenceEmpty_11) = true := Generated.Conforms.v17.slots_v17_SequenceEmpty
+
 theorem conforms_v20_SequenceErase : entryOK ("v17._SequenceErase", Generated.Ctors.v17.f_sequence_erase, Generated.Schemas.v17.s_SequenceErase_11) = true := Generated.Conforms.v17.conforms_v17_SequenceErase
+
+theorem slots_v20_SequenceErase : slotOK ("v17._SequenceErase", Generated.Ctors.v17.f_sequence_erase, Generated.Schemas.v17.s_SequenceErase_11) = true := Generated.Conforms.v17.slots_v17_SequenceErase
 
 theorem conforms_v20_SequenceInsert : entryOK ("v17._SequenceInsert", Generated.Ctors.v17.f_sequence_insert, Generated.Schemas.v17.s_SequenceInsert_11) = true := Generated.Conforms.v17.conforms_v17_SequenceInsert
 
+theorem slots_v20_SequenceInsert : slotOK ("v17._SequenceInsert", Generated.Ctors.v17.f_sequence_insert, Generated.Schemas.v17.s_SequenceInsert_11) = true := Generated.Conforms.v17.slots_v17_SequenceInsert
+
 theorem conforms_v20_SequenceLength : entryOK ("v17._SequenceLength", Generated.Ctors.v17.f_sequence_length, Generated.Schemas.v17.s_SequenceLength_11) = true := Generated.Conforms.v17.conforms_v17_SequenceLength
+
+theorem slots_v20_SequenceLength : slotOK ("v17._SequenceLength", Generated.Ctors.v17.f_sequence_length, Generated.Schemas.v17.s_SequenceLength_11) = true := Generated.Conforms.v17.slots_v17_SequenceLength
 
 theorem conforms_v20_SequenceMap : entryOK ("v17._SequenceMap", Generated.Ctors.v17.f_sequence_map, Generated.Schemas.v17.s_SequenceMap_17) = true := Generated.Conforms.v17.conforms_v17_SequenceMap
 
+theorem slots_v20_SequenceMap : slotOK ("v17._SequenceMap", Generated.Ctors.v17.f_sequence_map, Generated.Schemas.v17.s_SequenceMap_17) = true := Generated.Conforms.v17.slots_v17_SequenceMap
+
 theorem conforms_v20_Shape : entryOK ("v19._Shape", Generated.Ctors.v19.f_shape, Generated.Schemas.v19.s_Shape_19) = true := Generated.Conforms.v19.conforms_v19_Shape
+
+theorem slots_v20_Shape : slotOK ("v19._Shape", Generated.Ctors.v19.f_shape, Generated.Schemas.v19.s_Shape_19) = true := Generated.Conforms.v19.slots_v19_Shape
 
 theorem conforms_v20_Shrink : entryOK ("v17._Shrink", Generated.Ctors.v17.f_shrink, Generated.Schemas.v17.s_Shrink_9) = true := Generated.Conforms.v17.conforms_v17_Shrink
 
+theorem slots_v20_Shrink : slotOK ("v17._Shrink", Generated.Ctors.v17.f_shrink, Generated.Schemas.v17.s_Shrink_9) = true := Generated.Conforms.v17.slots_v17_Shrink
+
 theorem conforms_v20_Sigmoid : entryOK ("v17._Sigmoid", Generated.Ctors.v17.f_sigmoid, Generated.Schemas.v17.s_Sigmoid_13) = true := Generated.Conforms.v17.conforms_v17_Sigmoid
+
+theorem slots_v20_Sigmoid : slotOK ("v17._Sigmoid", Generated.Ctors.v17.f_sigmoid, Generated.Schemas.v17.s_Sigmoid_13) = true := Generated.Conforms.v17.slots_v17_Sigmoid
 
 theorem conforms_v20_Sign : entryOK ("v17._Sign", Generated.Ctors.v17.f_sign, Generated.Schemas.v17.s_Sign_13) = true := Generated.Conforms.v17.conforms_v17_Sign
 
+theorem slots_v20_Sign : slotOK ("v17._Sign", Generated.Ctors.v17.f_sign, Generated.Schemas.v17.s_Sign_13) = true := Generated.Conforms.v17.slots_v17_Sign
+
 theorem conforms_v20_Sin : entryOK ("v17._Sin", Generated.Ctors.v17.f_sin, Generated.Schemas.v17.s_Sin_7) = true := Generated.Conforms.v17.conforms_v17_Sin
+
+theorem slots_v20_Sin : slotOK ("v17._Sin", Generated.Ctors.v17.f_sin, Generated.Schemas.v17.s_Sin_7) = true := Generated.Conforms.v17.slots_v17_Sin
 
 theorem conforms_v20_Sinh : entryOK ("v17._Sinh", Generated.Ctors.v17.f_sinh, Generated.Schemas.v17.s_Sinh_9) = true := Generated.Conforms.v17.conforms_v17_Sinh
 
+theorem slots_v20_Sinh : slotOK ("v17._Sinh", Generated.Ctors.v17.f_sinh, Generated.Schemas.v17.s_Sinh_9) = true := Generated.Conforms.v17.slots_v17_Sinh
+
 theorem conforms_v20_Size : entryOK ("v19._Size", Generated.Ctors.v19.f_size, Generated.Schemas.v19.s_Size_19) = true := Generated.Conforms.v19.conforms_v19_Size
+
+theorem slots_v20_Size : slotOK ("v19._Size", Generated.Ctors.v19.f_size, Generated.Schemas.v19.s_Size_19) = true := Generated.Conforms.v19.slots_v19_Size
 
 theorem conforms_v20_Slice : entryOK ("v17._Slice", Generated.Ctors.v17.f_slice, Generated.Schemas.v17.s_Slice_13) = true := Generated.Conforms.v17.conforms_v17_Slice
 
+theorem slots_v20_Slice : slotOK ("v17._Slice", Generated.Ctors.v17.f_slice, Generated.Schemas.v17.s_Slice_13) = true := Generated.Conforms.v17.slots_v17_Slice
+
 theorem conforms_v20_Softmax : entryOK ("v17._Softmax", Generated.Ctors.v17.f_softmax, Generated.Schemas.v17.s_Softmax_13) = true := Generated.Conforms.v17.conforms_v17_Softmax
+
+theorem slots_v20_Softmax : slotOK ("v17._Softmax", Generated.Ctors.v17.f_softmax, Generated.Schemas.v17.s_Softmax_13) = true := Generated.Conforms.v17.slots_v17_Softmax
 
 theorem conforms_v20_SoftmaxCrossEntropyLoss : entryOK ("v17._SoftmaxCrossEntropyLoss", Generated.Ctors.v17.f_softmax_cross_entropy_loss, Generated.Schemas.v17.s_SoftmaxCrossEntropyLoss_13) = true := Generated.Conforms.v17.conforms_v17_SoftmaxCrossEntropyLoss
 
+theorem slots_v20_SoftmaxCrossEntropyLoss : slotOK ("v17._SoftmaxCrossEntropyLoss", Generated.Ctors.v17.f_softmax_cross_entropy_loss, Generated.Schemas.v17.s_SoftmaxCrossEntropyLoss_13) = true := Generated.Conforms.v17.slots_v17_SoftmaxCrossEntropyLoss
+
 theorem conforms_v20_Softplus : entryOK ("v17._Softplus", Generated.Ctors.v17.f_softplus, Generated.Schemas.v17.s_Softplus_1) = true := Generated.Conforms.v17.conforms_v17_Softplus
+
+theorem slots_v20_Softplus : slotOK ("v17._Softplus", Generated.Ctors.v17.f_softplus, Generated.Schemas.v17.s_Softplus_1) = true := Generated.Conforms.v17.slots_v17_Softplus
 
 theorem conforms_v20_Softsign : entryOK ("v17._Softsign", Generated.Ctors.v17.f_softsign, Generated.Schemas.v17.s_Softsign_1) = true := Generated.Conforms.v17.conforms_v17_Softsign
 
+theorem slots_v20_Softsign : slotOK ("v17._Softsign", Generated.Ctors.v17.f_softsign, Generated.Schemas.v17.s_Softsign_1) = true := Generated.Conforms.v17.slots_v17_Softsign
+
 theorem conforms_v20_SpaceToDepth : entryOK ("v17._SpaceToDepth", Generated.Ctors.v17.f_space_to_depth, Generated.Schemas.v17.s_SpaceToDepth_13) = true := Generated.Conforms.v17.conforms_v17_SpaceToDepth
+
+theorem slots_v20_SpaceToDepth : slotOK ("v17._SpaceToDepth", Generated.Ctors.v17.f_space_to_depth, Generated.Schemas.v17.s_SpaceToDepth_13) = true := Generated.Conforms.v17.slots_v17_SpaceToDepth
 
 theorem conforms_v20_Split : entryOK ("v18._Split", Generated.Ctors.v18.f_split, Generated.Schemas.v18.s_Split_18) = true := Generated.Conforms.v18.conforms_v18_Split
 
+theorem slots_v20_Split : slotOK ("v18._Split", Generated.Ctors.v18.f_split, Generated.Schemas.v18.s_Split_18) = true := Generated.Conforms.v18.slots_v18_Split
+
 theorem conforms_v20_SplitToSequence : entryOK ("v17._SplitToSequence", Generated.Ctors.v17.f_split_to_sequence, Generated.Schemas.v17.s_SplitToSequence_11) = true := Generated.Conforms.v17.conforms_v17_SplitToSequence
+
+theorem slots_v20_SplitToSequence : slotOK ("v17._SplitToSequence", Generated.Ctors.v17.f_split_to_sequence, Generated.Schemas.v17.s_SplitToSequence_11) = true := Generated.Conforms.v17.slots_v17_SplitToSequence
 
 theorem conforms_v20_Sqrt : entryOK ("v17._Sqrt", Generated.Ctors.v17.f_sqrt, Generated.Schemas.v17.s_Sqrt_13) = true := Generated.Conforms.v17.conforms_v17_Sqrt
 
+theorem slots_v20_Sqrt : slotOK ("v17._Sqrt", Generated.Ctors.v17.f_sqrt, Generated.Schemas.v17.s_Sqrt_13) = true := Generated.Conforms.v17.slots_v17_Sqrt
+
 theorem conforms_v20_Squeeze : entryOK ("v17._Squeeze", Generated.Ctors.v17.f_squeeze, Generated.Schemas.v17.s_Squeeze_13) = true := Generated.Conforms.v17.conforms_v17_Squeeze
+
+theorem slots_v20_Squeeze : slotOK ("v17._Squeeze", Generated.Ctors.v17.f_squeeze, Generated.Schemas.v17.s_Squeeze_13) = true := Generated.Conforms.v17.slots_v17_Squeeze
 
 theorem conforms_v20_StringConcat : entryOK ("v20._StringConcat", Generated.Ctors.v20.f_string_concat, Generated.Schemas.v20.s_StringConcat_20) = true := by decide +kernel
 
+theorem slots_v20_StringConcat : slotOK ("v20._StringConcat", Generated.Ctors.v20.f_string_concat, Generated.Schemas.v20.s_StringConcat_20) = true := by decide +kernel
+
 theorem conforms_v20_StringNormalizer : entryOK ("v17._StringNormalizer", Generated.Ctors.v17.f_string_normalizer, Generated.Schemas.v17.s_StringNormalizer_10) = true := Generated.Conforms.v17.conforms_v17_StringNormalizer
+
+theorem slots_v20_StringNormalizer : slotOK ("v17._StringNormalizer", Generated.Ctors.v17.f_string_normalizer, Generated.Schemas.v17.s_StringNormalizer_10) = true := Generated.Conforms.v17.slots_v17_StringNormalizer
 
 theorem conforms_v20_StringSplit : entryOK ("v20._StringSplit", Generated.Ctors.v20.f_string_split, Generated.Schemas.v20.s_StringSplit_20) = true := by decide +kernel
 
+theorem slots_v20_StringSplit : slotOK ("v20._StringSplit", Generated.Ctors.v20.f_string_split, Generated.Schemas.v20.s_StringSplit_20) = true := by decide +kernel
+
 theorem conforms_v20_Sub : entryOK ("v17._Sub", Generated.Ctors.v17.f_sub, Generated.Schemas.v17.s_Sub_14) = true := Generated.Conforms.v17.conforms_v17_Sub
+
+theorem slots_v20_Sub : slotOK ("v17._Sub", Generated.Ctors.v17.f_sub, Generated.Schemas.v17.s_Sub_14) = true := Generated.Conforms.v17.slots_v17_Sub
 
 theorem conforms_v20_Sum : entryOK ("v17._Sum", Generated.Ctors.v17.f_sum, Generated.Schemas.v17.s_Sum_13) = true := Generated.Conforms.v17.conforms_v17_Sum
 
+theorem slots_v20_Sum : slotOK ("v17._Sum", Generated.Ctors.v17.f_sum, Generated.Schemas.v17.s_Sum_13) = true := Generated.Conforms.v17.slots_v17_Sum
+
 theorem conforms_v20_Tan : entryOK ("v17._Tan", Generated.Ctors.v17.f_tan, Generated.Schemas.v17.s_Tan_7) = true := Generated.Conforms.v17.conforms_v17_Tan
+
+theorem slots_v20_Tan : slotOK ("v17._Tan", Generated.Ctors.v17.f_tan, Generated.Schemas.v17.s_Tan_7) = true := Generated.Conforms.v17.slots_v17_Tan
 
 theorem conforms_v20_Tanh : entryOK ("v17._Tanh", Generated.Ctors.v17.f_tanh, Generated.Schemas.v17.s_Tanh_13) = true := Generated.Conforms.v17.conforms_v17_Tanh
 
+theorem slots_v20_Tanh : slotOK ("v17._Tanh", Generated.Ctors.v17.f_tanh, Generated.Schemas.v17.s_Tanh_13) = true := Generated.Conforms.v17.slots_v17_Tanh
+
 theorem conforms_v20_TfIdfVectorizer : entryOK ("v17._TfIdfVectorizer", Generated.Ctors.v17.f_tf_idf_vectorizer, Generated.Schemas.v17.s_TfIdfVectorizer_9) = true := Generated.Conforms.v17.conforms_v17_TfIdfVectorizer
+
+theorem slots_v20_TfIdfVectorizer : slotOK ("v17._TfIdfVectorizer", Generated.Ctors.v17.f_tf_idf_vectorizer, Generated.Schemas.v17.s_TfIdfVectorizer_9) = true := Generated.Conforms.v17.slots_v17_TfIdfVectorizer
 
 theorem conforms_v20_ThresholdedRelu : entryOK ("v17._ThresholdedRelu", Generated.Ctors.v17.f_thresholded_relu, Generated.Schemas.v17.s_ThresholdedRelu_10) = true := Generated.Conforms.v17.conforms_v17_ThresholdedRelu
 
+theorem slots_v20_ThresholdedRelu : slotOK ("v17._ThresholdedRelu", Generated.Ctors.v17.f_thresholded_relu, Generated.Schemas.v17.s_ThresholdedRelu_10) = true := Generated.Conforms.v17.slots_v17_ThresholdedRelu
+
 theorem conforms_v20_Tile : entryOK ("v17._Tile", Generated.Ctors.v17.f_tile, Generated.Schemas.v17.s_Tile_13) = true := Generated.Conforms.v17.conforms_v17_Tile
+
+theorem slots_v20_Tile : slotOK ("v17._Tile", Generated.Ctors.v17.f_tile, Generated.Schemas.v17.s_Tile_13) = true := Generated.Conforms.v17.slots_v17_Tile
 
 theorem conforms_v20_TopK : entryOK ("v17._TopK", Generated.Ctors.v17.f_top_k, Generated.Schemas.v17.s_TopK_11) = true := Generated.Conforms.v17.conforms_v17_TopK
 
+theorem slots_v20_TopK : slotOK ("v17._TopK", Generated.Ctors.v17.f_top_k, Generated.Schemas.v17.s_TopK_11) = true := Generated.Conforms.v17.slots_v17_TopK
+
 theorem conforms_v20_Transpose : entryOK ("v17._Transpose", Generated.Ctors.v17.f_transpose, Generated.Schemas.v17.s_Transpose_13) = true := Generated.Conforms.v17.conforms_v17_Transpose
+
+theorem slots_v20_Transpose : slotOK ("v17._Transpose", Generated.Ctors.v17.f_transpose, Generated.Schemas.v17.s_Transpose_13) = true := Generated.Conforms.v17.slots_v17_Transpose
 
 theorem conforms_v20_Trilu : entryOK ("v17._Trilu", Generated.Ctors.v17.f_trilu, Generated.Schemas.v17.s_Trilu_14) = true := Generated.Conforms.v17.conforms_v17_Trilu
 
+theorem slots_v20_Trilu : slotOK ("v17._Trilu", Generated.Ctors.v17.f_trilu, Generated.Schemas.v17.s_Trilu_14) = true := Generated.Conforms.v17.slots_v17_Trilu
+
 theorem conforms_v20_Unique : entryOK ("v17._Unique", Generated.Ctors.v17.f_unique, Generated.Schemas.v17.s_Unique_11) = true := Generated.Conforms.v17.conforms_v17_Unique
+
+theorem slots_v20_Unique : slotOK ("v17._Unique", Generated.Ctors.v17.f_unique, Generated.Schemas.v17.s_Unique_11) = true := Generated.Conforms.v17.slots_v17_Unique
 
 theorem conforms_v20_Unsqueeze : entryOK ("v17._Unsqueeze", Generated.Ctors.v17.f_unsqueeze, Generated.Schemas.v17.s_Unsqueeze_13) = true := Generated.Conforms.v17.conforms_v17_Unsqueeze
 
+theorem slots_v20_Unsqueeze : slotOK ("v17._Unsqueeze", Generated.Ctors.v17.f_unsqueeze, Generated.Schemas.v17.s_Unsqueeze_13) = true := Generated.Conforms.v17.slots_v17_Unsqueeze
+
 theorem conforms_v20_Where : entryOK ("v17._Where", Generated.Ctors.v17.f_where, Generated.Schemas.v17.s_Where_16) = true := Generated.Conforms.v17.conforms_v17_Where
 
+theorem slots_v20_Where : slotOK ("v17._Where", Generated.Ctors.v17.f_where, Generated.Schemas.v17.s_Where_16) = true := Generated.Conforms.v17.slots_v17_Where
+
 theorem conforms_v20_Xor : entryOK ("v17._Xor", Generated.Ctors.v17.f_xor, Generated.Schemas.v17.s_Xor_7) = true := Generated.Conforms.v17.conforms_v17_Xor
+
+theorem slots_v20_Xor : slotOK ("v17._Xor", Generated.Ctors.v17.f_xor, Generated.Schemas.v17.s_Xor_7) = true := Generated.Conforms.v17.slots_v17_Xor
 
 /-- every operator/module pair of this module without a listed deviation -/
 def table : List Entry :=
@@ -776,6 +1158,398 @@ theorem table_all : table.all entryOK = true :=
 
 theorem table_conforms : ∀ e ∈ table, entryOK e = true :=
   fun e he => List.all_eq_true.mp table_all e he
+
+/-- every operator/module pair of this module (deviating ones included: deviations concern attributes) -/
+def allEntries : List Entry :=
+  [
+   ("v17._Abs", Generated.Ctors.v17.f_abs, Generated.Schemas.v17.s_Abs_13), 
+   ("v17._Acos", Generated.Ctors.v17.f_acos, Generated.Schemas.v17.s_Acos_7), 
+   ("v17._Acosh", Generated.Ctors.v17.f_acosh, Generated.Schemas.v17.s_Acosh_9), 
+   ("v17._Add", Generated.Ctors.v17.f_add, Generated.Schemas.v17.s_Add_14), 
+   ("v20._AffineGrid", Generated.Ctors.v20.f_affine_grid, Generated.Schemas.v20.s_AffineGrid_20), 
+   ("v17._And", Generated.Ctors.v17.f_and_, Generated.Schemas.v17.s_And_7), 
+   ("v17._ArgMax", Generated.Ctors.v17.f_arg_max, Generated.Schemas.v17.s_ArgMax_13), 
+   ("v17._ArgMin", Generated.Ctors.v17.f_arg_min, Generated.Schemas.v17.s_ArgMin_13), 
+   ("v17._Asin", Generated.Ctors.v17.f_asin, Generated.Schemas.v17.s_Asin_7), 
+   ("v17._Asinh", Generated.Ctors.v17.f_asinh, Generated.Schemas.v17.s_Asinh_9), 
+   ("v17._Atan", Generated.Ctors.v17.f_atan, Generated.Schemas.v17.s_Atan_7), 
+   ("v17._Atanh", Generated.Ctors.v17.f_atanh, Generated.Schemas.v17.s_Atanh_9), 
+   ("v19._AveragePool", Generated.Ctors.v19.f_average_pool, Generated.Schemas.v19.s_AveragePool_19), 
+   ("v17._BatchNormalization", Generated.Ctors.v17.f_batch_normalization, Generated.Schemas.v17.s_BatchNormalization_15), 
+   ("v17._Bernoulli", Generated.Ctors.v17.f_bernoulli, Generated.Schemas.v17.s_Bernoulli_15), 
+   ("v17._BitShift", Generated.Ctors.v17.f_bit_shift, Generated.Schemas.v17.s_BitShift_11), 
+   ("v18._BitwiseAnd", Generated.Ctors.v18.f_bitwise_and, Generated.Schemas.v18.s_BitwiseAnd_18), 
+   ("v18._BitwiseNot", Generated.Ctors.v18.f_bitwise_not, Generated.Schemas.v18.s_BitwiseNot_18), 
+   ("v18._BitwiseOr", Generated.Ctors.v18.f_bitwise_or, Generated.Schemas.v18.s_BitwiseOr_18), 
+   ("v18._BitwiseXor", Generated.Ctors.v18.f_bitwise_xor, Generated.Schemas.v18.s_BitwiseXor_18), 
+   ("v17._BlackmanWindow", Generated.Ctors.v17.f_blackman_window, Generated.Schemas.v17.s_BlackmanWindow_17), 
+   ("v19._Cast", Generated.Ctors.v19.f_cast, Generated.Schemas.v19.s_Cast_19), 
+   ("v19._CastLike", Generated.Ctors.v19.f_cast_like, Generated.Schemas.v19.s_CastLike_19), 
+   ("v17._Ceil", Generated.Ctors.v17.f_ceil, Generated.Schemas.v17.s_Ceil_13), 
+   ("v17._Celu", Generated.Ctors.v17.f_celu, Generated.Schemas.v17.s_Celu_12), 
+   ("v18._CenterCropPad", Generated.Ctors.v18.f_center_crop_pad, Generated.Schemas.v18.s_CenterCropPad_18), 
+   ("v17._Clip", Generated.Ctors.v17.f_clip, Generated.Schemas.v17.s_Clip_13), 
+   ("v18._Col2Im", Generated.Ctors.v18.f_col2_im, Generated.Schemas.v18.s_Col2Im_18), 
+   ("v17._Compress", Generated.Ctors.v17.f_compress, Generated.Schemas.v17.s_Compress_11), 
+   ("v17._Concat", Generated.Ctors.v17.f_concat, Generated.Schemas.v17.s_Concat_13), 
+   ("v17._ConcatFromSequence", Generated.Ctors.v17.f_concat_from_sequence, Generated.Schemas.v17.s_ConcatFromSequence_11), 
+   ("v19._Constant", Generated.Ctors.v19.f_constant, Generated.Schemas.v19.s_Constant_19), 
+   ("v20._ConstantOfShape", Generated.Ctors.v20.f_constant_of_shape, Generated.Schemas.v20.s_ConstantOfShape_20), 
+   ("v17._Conv", Generated.Ctors.v17.f_conv, Generated.Schemas.v17.s_Conv_11), 
+   ("v17._ConvInteger", Generated.Ctors.v17.f_conv_integer, Generated.Schemas.v17.s_ConvInteger_10), 
+   ("v17._ConvTranspose", Generated.Ctors.v17.f_conv_transpose, Generated.Schemas.v17.s_ConvTranspose_11), 
+   ("v17._Cos", Generated.Ctors.v17.f_cos, Generated.Schemas.v17.s_Cos_7), 
+   ("v17._Cosh", Generated.Ctors.v17.f_cosh, Generated.Schemas.v17.s_Cosh_9), 
+   ("v17._CumSum", Generated.Ctors.v17.f_cumsum, Generated.Schemas.v17.s_CumSum_14), 
+   ("v20._DFT", Generated.Ctors.v20.f_dft, Generated.Schemas.v20.s_DFT_20), 
+   ("v19._DeformConv", Generated.Ctors.v19.f_deform_conv, Generated.Schemas.v19.s_DeformConv_19), 
+   ("v17._DepthToSpace", Generated.Ctors.v17.f_depth_to_space, Generated.Schemas.v17.s_DepthToSpace_13), 
+   ("v19._DequantizeLinear", Generated.Ctors.v19.f_dequantize_linear, Generated.Schemas.v19.s_DequantizeLinear_19), 
+   ("v17._Det", Generated.Ctors.v17.f_det, Generated.Schemas.v17.s_Det_11), 
+   ("v17._Div", Generated.Ctors.v17.f_div, Generated.Schemas.v17.s_Div_14), 
+   ("v17._Dropout", Generated.Ctors.v17.f_dropout, Generated.Schemas.v17.s_Dropout_13), 
+   ("v17._DynamicQuantizeLinear", Generated.Ctors.v17.f_dynamic_quantize_linear, Generated.Schemas.v17.s_DynamicQuantizeLinear_11), 
+   ("v17._Einsum", Generated.Ctors.v17.f_einsum, Generated.Schemas.v17.s_Einsum_12), 
+   ("v17._Elu", Generated.Ctors.v17.f_elu, Generated.Schemas.v17.s_Elu_6), 
+   ("v19._Equal", Generated.Ctors.v19.f_equal, Generated.Schemas.v19.s_Equal_19), 
+   ("v17._Erf", Generated.Ctors.v17.f_erf, Generated.Schemas.v17.s_Erf_13), 
+   ("v17._Exp", Generated.Ctors.v17.f_exp, Generated.Schemas.v17.s_Exp_13), 
+   ("v17._Expand", Generated.Ctors.v17.f_expand, Generated.Schemas.v17.s_Expand_13), 
+   ("v17._EyeLike", Generated.Ctors.v17.f_eye_like, Generated.Schemas.v17.s_EyeLike_9), 
+   ("v17._Flatten", Generated.Ctors.v17.f_flatten, Generated.Schemas.v17.s_Flatten_13), 
+   ("v17._Floor", Generated.Ctors.v17.f_floor, Generated.Schemas.v17.s_Floor_13), 
+   ("v17._GRU", Generated.Ctors.v17.f_gru, Generated.Schemas.v17.s_GRU_14), 
+   ("v17._Gather", Generated.Ctors.v17.f_gather, Generated.Schemas.v17.s_Gather_13), 
+   ("v17._GatherElements", Generated.Ctors.v17.f_gather_elements, Generated.Schemas.v17.s_GatherElements_13), 
+   ("v17._GatherND", Generated.Ctors.v17.f_gather_nd, Generated.Schemas.v17.s_GatherND_13), 
+   ("v20._Gelu", Generated.Ctors.v20.f_gelu, Generated.Schemas.v20.s_Gelu_20), 
+   ("v17._Gemm", Generated.Ctors.v17.f_gemm, Generated.Schemas.v17.s_Gemm_13), 
+   ("v17._GlobalAveragePool", Generated.Ctors.v17.f_global_average_pool, Generated.Schemas.v17.s_GlobalAveragePool_1), 
+   ("v17._GlobalLpPool", Generated.Ctors.v17.f_global_lp_pool, Generated.Schemas.v17.s_GlobalLpPool_2), 
+   ("v17._GlobalMaxPool", Generated.Ctors.v17.f_global_max_pool, Generated.Schemas.v17.s_GlobalMaxPool_1), 
+   ("v17._Greater", Generated.Ctors.v17.f_greater, Generated.Schemas.v17.s_Greater_13), 
+   ("v17._GreaterOrEqual", Generated.Ctors.v17.f_greater_or_equal, Generated.Schemas.v17.s_GreaterOrEqual_16), 
+   ("v20._GridSample", Generated.Ctors.v20.f_grid_sample, Generated.Schemas.v20.s_GridSample_20), 
+   ("v18._GroupNormalization", Generated.Ctors.v18.f_group_normalization, Generated.Schemas.v18.s_GroupNormalization_18), 
+   ("v17._HammingWindow", Generated.Ctors.v17.f_hamming_window, Generated.Schemas.v17.s_HammingWindow_17), 
+   ("v17._HannWindow", Generated.Ctors.v17.f_hann_window, Generated.Schemas.v17.s_HannWindow_17), 
+   ("v17._HardSigmoid", Generated.Ctors.v17.f_hard_sigmoid, Generated.Schemas.v17.s_HardSigmoid_6), 
+   ("v17._HardSwish", Generated.Ctors.v17.f_hard_swish, Generated.Schemas.v17.s_HardSwish_14), 
+   ("v17._Hardmax", Generated.Ctors.v17.f_hardmax, Generated.Schemas.v17.s_Hardmax_13), 
+   ("v19._Identity", Generated.Ctors.v19.f_identity, Generated.Schemas.v19.s_Identity_19), 
+   ("v19._If", Generated.Ctors.v19.f_if_, Generated.Schemas.v19.s_If_19), 
+   ("v20._ImageDecoder", Generated.Ctors.v20.f_image_decoder, Generated.Schemas.v20.s_ImageDecoder_20), 
+   ("v17._InstanceNormalization", Generated.Ctors.v17.f_instance_normalization, Generated.Schemas.v17.s_InstanceNormalization_6), 
+   ("v20._IsInf", Generated.Ctors.v20.f_isinf, Generated.Schemas.v20.s_IsInf_20), 
+   ("v20._IsNaN", Generated.Ctors.v20.f_isnan, Generated.Schemas.v20.s_IsNaN_20), 
+   ("v17._LRN", Generated.Ctors.v17.f_lrn, Generated.Schemas.v17.s_LRN_13), 
+   ("v17._LSTM", Generated.Ctors.v17.f_lstm, Generated.Schemas.v17.s_LSTM_14), 
+   ("v17._LayerNormalization", Generated.Ctors.v17.f_layer_normalization, Generated.Schemas.v17.s_LayerNormalization_17), 
+   ("v17._LeakyRelu", Generated.Ctors.v17.f_leaky_relu, Generated.Schemas.v17.s_LeakyRelu_16), 
+   ("v17._Less", Generated.Ctors.v17.f_less, Generated.Schemas.v17.s_Less_13), 
+   ("v17._LessOrEqual", Generated.Ctors.v17.f_less_or_equal, Generated.Schemas.v17.s_LessOrEqual_16), 
+   ("v17._Log", Generated.Ctors.v17.f_log, Generated.Schemas.v17.s_Log_13), 
+   ("v17._LogSoftmax", Generated.Ctors.v17.f_log_softmax, Generated.Schemas.v17.s_LogSoftmax_13), 
+   ("v19._Loop", Generated.Ctors.v19.f_loop, Generated.Schemas.v19.s_Loop_19), 
+   ("v17._LpNormalization", Generated.Ctors.v17.f_lp_normalization, Generated.Schemas.v17.s_LpNormalization_1), 
+   ("v18._LpPool", Generated.Ctors.v18.f_lp_pool, Generated.Schemas.v18.s_LpPool_18), 
+   ("v17._MatMul", Generated.Ctors.v17.f_matmul, Generated.Schemas.v17.s_MatMul_13), 
+   ("v17._MatMulInteger", Generated.Ctors.v17.f_matmul_integer, Generated.Schemas.v17.s_MatMulInteger_10), 
+   ("v17._Max", Generated.Ctors.v17.f_max, Generated.Schemas.v17.s_Max_13), 
+   ("v17._MaxPool", Generated.Ctors.v17.f_max_pool, Generated.Schemas.v17.s_MaxPool_12), 
+   ("v17._MaxRoiPool", Generated.Ctors.v17.f_max_roi_pool, Generated.Schemas.v17.s_MaxRoiPool_1), 
+   ("v17._MaxUnpool", Generated.Ctors.v17.f_max_unpool, Generated.Schemas.v17.s_MaxUnpool_11), 
+   ("v17._Mean", Generated.Ctors.v17.f_mean, Generated.Schemas.v17.s_Mean_13), 
+   ("v17._MeanVarianceNormalization", Generated.Ctors.v17.f_mean_variance_normalization, Generated.Schemas.v17.s_MeanVarianceNormalization_13), 
+   ("v17._MelWeightMatrix", Generated.Ctors.v17.f_mel_weight_matrix, Generated.Schemas.v17.s_MelWeightMatrix_17), 
+   ("v17._Min", Generated.Ctors.v17.f_min, Generated.Schemas.v17.s_Min_13), 
+   ("v18._Mish", Generated.Ctors.v18.f_mish, Generated.Schemas.v18.s_Mish_18), 
+   ("v17._Mod", Generated.Ctors.v17.f_mod, Generated.Schemas.v17.s_Mod_13), 
+   ("v17._Mul", Generated.Ctors.v17.f_mul, Generated.Schemas.v17.s_Mul_14), 
+   ("v17._Multinomial", Generated.Ctors.v17.f_multinomial, Generated.Schemas.v17.s_Multinomial_7), 
+   ("v17._Neg", Generated.Ctors.v17.f_neg, Generated.Schemas.v17.s_Neg_13), 
+   ("v17._NegativeLogLikelihoodLoss", Generated.Ctors.v17.f_negative_log_likelihood_loss, Generated.Schemas.v17.s_NegativeLogLikelihoodLoss_13), 
+   ("v17._NonMaxSuppression", Generated.Ctors.v17.f_non_max_suppression, Generated.Schemas.v17.s_NonMaxSuppression_11), 
+   ("v17._NonZero", Generated.Ctors.v17.f_non_zero, Generated.Schemas.v17.s_NonZero_13), 
+   ("v17._Not", Generated.Ctors.v17.f_not_, Generated.Schemas.v17.s_Not_1), 
+   ("v17._OneHot", Generated.Ctors.v17.f_one_hot, Generated.Schemas.v17.s_OneHot_11), 
+   ("v17._Optional", Generated.Ctors.v17.f_optional, Generated.Schemas.v17.s_Optional_15), 
+   ("v18._OptionalGetElement", Generated.Ctors.v18.f_optional_get_element, Generated.Schemas.v18.s_OptionalGetElement_18), 
+   ("v18._OptionalHasElement", Generated.Ctors.v18.f_optional_has_element, Generated.Schemas.v18.s_OptionalHasElement_18), 
+   ("v17._Or", Generated.Ctors.v17.f_or_, Generated.Schemas.v17.s_Or_7), 
+   ("v17._PRelu", Generated.Ctors.v17.f_prelu, Generated.Schemas.v17.s_PRelu_16), 
+   ("v19._Pad", Generated.Ctors.v19.f_pad, Generated.Schemas.v19.s_Pad_19), 
+   ("v17._Pow", Generated.Ctors.v17.f_pow, Generated.Schemas.v17.s_Pow_15), 
+   ("v17._QLinearConv", Generated.Ctors.v17.f_qlinear_conv, Generated.Schemas.v17.s_QLinearConv_10), 
+   ("v17._QLinearMatMul", Generated.Ctors.v17.f_qlinear_matmul, Generated.Schemas.v17.s_QLinearMatMul_10), 
+   ("v19._QuantizeLinear", Generated.Ctors.v19.f_quantize_linear, Generated.Schemas.v19.s_QuantizeLinear_19), 
+   ("v17._RNN", Generated.Ctors.v17.f_rnn, Generated.Schemas.v17.s_RNN_14), 
+   ("v17._RandomNormal", Generated.Ctors.v17.f_random_normal, Generated.Schemas.v17.s_RandomNormal_1), 
+   ("v17._RandomNormalLike", Generated.Ctors.v17.f_random_normal_like, Generated.Schemas.v17.s_RandomNormalLike_1), 
+   ("v17._RandomUniform", Generated.Ctors.v17.f_random_uniform, Generated.Schemas.v17.s_RandomUniform_1), 
+   ("v17._RandomUniformLike", Generated.Ctors.v17.f_random_uniform_like, Generated.Schemas.v17.s_RandomUniformLike_1), 
+   ("v17._Range", Generated.Ctors.v17.f_range, Generated.Schemas.v17.s_Range_11), 
+   ("v17._Reciprocal", Generated.Ctors.v17.f_reciprocal, Generated.Schemas.v17.s_Reciprocal_13), 
+   ("v18._ReduceL1", Generated.Ctors.v18.f_reduce_l1, Generated.Schemas.v18.s_ReduceL1_18), 
+   ("v18._ReduceL2", Generated.Ctors.v18.f_reduce_l2, Generated.Schemas.v18.s_ReduceL2_18), 
+   ("v18._ReduceLogSum", Generated.Ctors.v18.f_reduce_log_sum, Generated.Schemas.v18.s_ReduceLogSum_18), 
+   ("v18._ReduceLogSumExp", Generated.Ctors.v18.f_reduce_log_sum_exp, Generated.Schemas.v18.s_ReduceLogSumExp_18), 
+   ("v20._ReduceMax", Generated.Ctors.v20.f_reduce_max, Generated.Schemas.v20.s_ReduceMax_20), 
+   ("v18._ReduceMean", Generated.Ctors.v18.f_reduce_mean, Generated.Schemas.v18.s_ReduceMean_18), 
+   ("v20._ReduceMin", Generated.Ctors.v20.f_reduce_min, Generated.Schemas.v20.s_ReduceMin_20), 
+   ("v18._ReduceProd", Generated.Ctors.v18.f_reduce_prod, Generated.Schemas.v18.s_ReduceProd_18), 
+   ("v17._ReduceSum", Generated.Ctors.v17.f_reduce_sum, Generated.Schemas.v17.s_ReduceSum_13), 
+   ("v18._ReduceSumSquare", Generated.Ctors.v18.f_reduce_sum_square, Generated.Schemas.v18.s_ReduceSumSquare_18), 
+   ("v20._RegexFullMatch", Generated.Ctors.v20.f_regex_full_match, Generated.Schemas.v20.s_RegexFullMatch_20), 
+   ("v17._Relu", Generated.Ctors.v17.f_relu, Generated.Schemas.v17.s_Relu_14), 
+   ("v19._Reshape", Generated.Ctors.v19.f_reshape, Generated.Schemas.v19.s_Reshape_19), 
+   ("v19._Resize", Generated.Ctors.v19.f_resize, Generated.Schemas.v19.s_Resize_19), 
+   ("v17._ReverseSequence", Generated.Ctors.v17.f_reverse_sequence, Generated.Schemas.v17.s_ReverseSequence_10), 
+   ("v17._RoiAlign", Generated.Ctors.v17.f_roi_align, Generated.Schemas.v17.s_RoiAlign_16), 
+   ("v17._Round", Generated.Ctors.v17.f_round, Generated.Schemas.v17.s_Round_11), 
+   ("v17._STFT", Generated.Ctors.v17.f_stft, Generated.Schemas.v17.s_STFT_17), 
+   ("v19._Scan", Generated.Ctors.v19.f_scan, Generated.Schemas.v19.s_Scan_19), 
+   ("v18._ScatterElements", Generated.Ctors.v18.f_scatter_elements, Generated.Schemas.v18.s_ScatterElements_18), 
+   ("v18._ScatterND", Generated.Ctors.v18.f_scatter_nd, Generated.Schemas.v18.s_ScatterND_18), 
+   ("v17._Selu", Generated.Ctors.v17.f_selu, Generated.Schemas.v17.s_Selu_6), 
+   ("v17._SequenceAt", Generated.Ctors.v17.f_sequence_at, Generated.Schemas.v17.s_SequenceAt_11), 
+   ("v17._SequenceConstruct", Generated.Ctors.v17.f_sequence_construct, Generated.Schemas.v17.s_SequenceConstruct_11), 
+   ("v17._SequenceEmpty", Generated.Ctors.v17.f_sequence_empty, Generated.Schemas.v17.s_SequenceEmpty_11), 
+   ("v17._SequenceErase", Generated.Ctors.v17.f_sequence_erase, Generated.Schemas.v17.s_SequenceErase_11), 
+   ("v17._SequenceInsert", Generated.Ctors.v17.f_sequence_insert, Generated.Schemas.v17.s_SequenceInsert_11), 
+   ("v17._SequenceLength", Generated.Ctors.v17.f_sequence_length, Generated.Schemas.v17.s_SequenceLength_11), 
+   ("v17._SequenceMap", Generated.Ctors.v17.f_sequence_map, Generated.Schemas.v17.s_SequenceMap_17), 
+   ("v19._Shape", Generated.Ctors.v19.f_shape, Generated.Schemas.v19.s_Shape_19), 
+   ("v17._Shrink", Generated.Ctors.v17.f_shrink, Generated.Schemas.v17.s_Shrink_9), 
+   ("v17._Sigmoid", Generated.Ctors.v17.f_sigmoid, Generated.Schemas.v17.s_Sigmoid_13), 
+   ("v17._Sign", Generated.Ctors.v17.f_sign, Generated.Schemas.v17.s_Sign_13), 
+   ("v17._Sin", Generated.Ctors.v17.f_sin, Generated.Schemas.v17.s_Sin_7), 
+   ("v17._Sinh", Generated.Ctors.v17.f_sinh, Generated.Schemas.v17.s_Sinh_9), 
+   ("v19._Size", Generated.Ctors.v19.f_size, Generated.Schemas.v19.s_Size_19), 
+   ("v17._Slice", Generated.Ctors.v17.f_slice, Generated.Schemas.v17.s_Slice_13), 
+   ("v17._Softmax", Generated.Ctors.v17.f_softmax, Generated.Schemas.v17.s_Softmax_13), 
+   ("v17._SoftmaxCrossEntropyLoss", Generated.Ctors.v17.f_softmax_cross_entropy_loss, Generated.Schemas.v17.s_SoftmaxCrossEntropyLoss_13), 
+   ("v17._Softplus", Generated.Ctors.v17.f_softplus, Generated.Schemas.v17.s_Softplus_1), 
+   ("v17._Softsign", Generated.Ctors.v17.f_softsign, Generated.Schemas.v17.s_Softsign_1), 
+   ("v17._SpaceToDepth", Generated.Ctors.v17.f_space_to_depth, Generated.Schemas.v17.s_SpaceToDepth_13), 
+   ("v18._Split", Generated.Ctors.v18.f_split, Generated.Schemas.v18.s_Split_18), 
+   ("v17._SplitToSequence", Generated.Ctors.v17.f_split_to_sequence, Generated.Schemas.v17.s_SplitToSequence_11), 
+   ("v17._Sqrt", Generated.Ctors.v17.f_sqrt, Generated.Schemas.v17.s_Sqrt_13), 
+   ("v17._Squeeze", Generated.Ctors.v17.f_squeeze, Generated.Schemas.v17.s_Squeeze_13), 
+   ("v20._StringConcat", Generated.Ctors.v20.f_string_concat, Generated.Schemas.v20.s_StringConcat_20), 
+   ("v17._StringNormalizer", Generated.Ctors.v17.f_string_normalizer, Generated.Schemas.v17.s_StringNormalizer_10), 
+   ("v20._StringSplit", Generated.Ctors.v20.f_string_split, Generated.Schemas.v20.s_StringSplit_20), 
+   ("v17._Sub", Generated.Ctors.v17.f_sub, Generated.Schemas.v17.s_Sub_14), 
+   ("v17._Sum", Generated.Ctors.v17.f_sum, Generated.Schemas.v17.s_Sum_13), 
+   ("v17._Tan", Generated.Ctors.v17.f_tan, Generated.Schemas.v17.s_Tan_7), 
+   ("v17._Tanh", Generated.Ctors.v17.f_tanh, Generated.Schemas.v17.s_Tanh_13), 
+   ("v17._TfIdfVectorizer", Generated.Ctors.v17.f_tf_idf_vectorizer, Generated.Schemas.v17.s_TfIdfVectorizer_9), 
+   ("v17._ThresholdedRelu", Generated.Ctors.v17.f_thresholded_relu, Generated.Schemas.v17.s_ThresholdedRelu_10), 
+   ("v17._Tile", Generated.Ctors.v17.f_tile, Generated.Schemas.v17.s_Tile_13), 
+   ("v17._TopK", Generated.Ctors.v17.f_top_k, Generated.Schemas.v17.s_TopK_11), 
+   ("v17._Transpose", Generated.Ctors.v17.f_transpose, Generated.Schemas.v17.s_Transpose_13), 
+   ("v17._Trilu", Generated.Ctors.v17.f_trilu, Generated.Schemas.v17.s_Trilu_14), 
+   ("v17._Unique", Generated.Ctors.v17.f_unique, Generated.Schemas.v17.s_Unique_11), 
+   ("v17._Unsqueeze", Generated.Ctors.v17.f_unsqueeze, Generated.Schemas.v17.s_Unsqueeze_13), 
+   ("v17._Where", Generated.Ctors.v17.f_where, Generated.Schemas.v17.s_Where_16), 
+   ("v17._Xor", Generated.Ctors.v17.f_xor, Generated.Schemas.v17.s_Xor_7)]
+
+theorem slots_all : allEntries.all slotOK = true :=
+  all_cons slots_v20_Abs (
+  all_cons slots_v20_Acos (
+  all_cons slots_v20_Acosh (
+  all_cons slots_v20_Add (
+  all_cons slots_v20_AffineGrid (
+  all_cons slots_v20_And (
+  all_cons slots_v20_ArgMax (
+  all_cons slots_v20_ArgMin (
+  all_cons slots_v20_Asin (
+  all_cons slots_v20_Asinh (
+  all_cons slots_v20_Atan (
+  all_cons slots_v20_Atanh (
+  all_cons slots_v20_AveragePool (
+  all_cons slots_v20_BatchNormalization (
+  all_cons slots_v20_Bernoulli (
+  all_cons slots_v20_BitShift (
+  all_cons slots_v20_BitwiseAnd (
+  all_cons slots_v20_BitwiseNot (
+  all_cons slots_v20_BitwiseOr (
+  all_cons slots_v20_BitwiseXor (
+  all_cons slots_v20_BlackmanWindow (
+  all_cons slots_v20_Cast (
+  all_cons slots_v20_CastLike (
+  all_cons slots_v20_Ceil (
+  all_cons slots_v20_Celu (
+  all_cons slots_v20_CenterCropPad (
+  all_cons slots_v20_Clip (
+  all_cons slots_v20_Col2Im (
+  all_cons slots_v20_Compress (
+  all_cons slots_v20_Concat (
+  all_cons slots_v20_ConcatFromSequence (
+  all_cons slots_v20_Constant (
+  all_cons slots_v20_ConstantOfShape (
+  all_cons slots_v20_Conv (
+  all_cons slots_v20_ConvInteger (
+  all_cons slots_v20_ConvTranspose (
+  all_cons slots_v20_Cos (
+  all_cons slots_v20_Cosh (
+  all_cons slots_v20_CumSum (
+  all_cons slots_v20_DFT (
+  all_cons slots_v20_DeformConv (
+  all_cons slots_v20_DepthToSpace (
+  all_cons slots_v20_DequantizeLinear (
+  all_cons slots_v20_Det (
+  all_cons slots_v20_Div (
+  all_cons slots_v20_Dropout (
+  all_cons slots_v20_DynamicQuantizeLinear (
+  all_cons slots_v20_Einsum (
+  all_cons slots_v20_Elu (
+  all_cons slots_v20_Equal (
+  all_cons slots_v20_Erf (
+  all_cons slots_v20_Exp (
+  all_cons slots_v20_Expand (
+  all_cons slots_v20_EyeLike (
+  all_cons slots_v20_Flatten (
+  all_cons slots_v20_Floor (
+  all_cons slots_v20_GRU (
+  all_cons slots_v20_Gather (
+  all_cons slots_v20_GatherElements (
+  all_cons slots_v20_GatherND (
+  all_cons slots_v20_Gelu (
+  all_cons slots_v20_Gemm (
+  all_cons slots_v20_GlobalAveragePool (
+  all_cons slots_v20_GlobalLpPool (
+  all_cons slots_v20_GlobalMaxPool (
+  all_cons slots_v20_Greater (
+  all_cons slots_v20_GreaterOrEqual (
+  all_cons slots_v20_GridSample (
+  all_cons slots_v20_GroupNormalization (
+  all_cons slots_v20_HammingWindow (
+  all_cons slots_v20_HannWindow (
+  all_cons slots_v20_HardSigmoid (
+  all_cons slots_v20_HardSwish (
+  all_cons slots_v20_Hardmax (
+  all_cons slots_v20_Identity (
+  all_cons slots_v20_If (
+  all_cons slots_v20_ImageDecoder (
+  all_cons slots_v20_InstanceNormalization (
+  all_cons slots_v20_IsInf (
+  all_cons slots_v20_IsNaN (
+  all_cons slots_v20_LRN (
+  all_cons slots_v20_LSTM (
+  all_cons slots_v20_LayerNormalization (
+  all_cons slots_v20_LeakyRelu (
+  all_cons slots_v20_Less (
+  all_cons slots_v20_LessOrEqual (
+  all_cons slots_v20_Log (
+  all_cons slots_v20_LogSoftmax (
+  all_cons slots_v20_Loop (
+  all_cons slots_v20_LpNormalization (
+  all_cons slots_v20_LpPool (
+  all_cons slots_v20_MatMul (
+  all_cons slots_v20_MatMulInteger (
+  all_cons slots_v20_Max (
+  all_cons slots_v20_MaxPool (
+  all_cons slots_v20_MaxRoiPool (
+  all_cons slots_v20_MaxUnpool (
+  all_cons slots_v20_Mean (
+  all_cons slots_v20_MeanVarianceNormalization (
+  all_cons slots_v20_MelWeightMatrix (
+  all_cons slots_v20_Min (
+  all_cons slots_v20_Mish (
+  all_cons slots_v20_Mod (
+  all_cons slots_v20_Mul (
+  all_cons slots_v20_Multinomial (
+  all_cons slots_v20_Neg (
+  all_cons slots_v20_NegativeLogLikelihoodLoss (
+  all_cons slots_v20_NonMaxSuppression (
+  all_cons slots_v20_NonZero (
+  all_cons slots_v20_Not (
+  all_cons slots_v20_OneHot (
+  all_cons slots_v20_Optional (
+  all_cons slots_v20_OptionalGetElement (
+  all_cons slots_v20_OptionalHasElement (
+  all_cons slots_v20_Or (
+  all_cons slots_v20_PRelu (
+  all_cons slots_v20_Pad (
+  all_cons slots_v20_Pow (
+  all_cons slots_v20_QLinearConv (
+  all_cons slots_v20_QLinearMatMul (
+  all_cons slots_v20_QuantizeLinear (
+  all_cons slots_v20_RNN (
+  all_cons slots_v20_RandomNormal (
+  all_cons slots_v20_RandomNormalLike (
+  all_cons slots_v20_RandomUniform (
+  all_cons slots_v20_RandomUniformLike (
+  all_cons slots_v20_Range (
+  all_cons slots_v20_Reciprocal (
+  all_cons slots_v20_ReduceL1 (
+  all_cons slots_v20_ReduceL2 (
+  all_cons slots_v20_ReduceLogSum (
+  all_cons slots_v20_ReduceLogSumExp (
+  all_cons slots_v20_ReduceMax (
+  all_cons slots_v20_ReduceMean (
+  all_cons slots_v20_ReduceMin (
+  all_cons slots_v20_ReduceProd (
+  all_cons slots_v20_ReduceSum (
+  all_cons slots_v20_ReduceSumSquare (
+  all_cons slots_v20_RegexFullMatch (
+  all_cons slots_v20_Relu (
+  all_cons slots_v20_Reshape (
+  all_cons slots_v20_Resize (
+  all_cons slots_v20_ReverseSequence (
+  all_cons slots_v20_RoiAlign (
+  all_cons slots_v20_Round (
+  all_cons slots_v20_STFT (
+  all_cons slots_v20_Scan (
+  all_cons slots_v20_ScatterElements (
+  all_cons slots_v20_ScatterND (
+  all_cons slots_v20_Selu (
+  all_cons slots_v20_SequenceAt (
+  all_cons slots_v20_SequenceConstruct (
+  all_cons slots_v20_SequenceEmpty (
+  all_cons slots_v20_SequenceErase (
+  all_cons slots_v20_SequenceInsert (
+  all_cons slots_v20_SequenceLength (
+  all_cons slots_v20_SequenceMap (
+  all_cons slots_v20_Shape (
+  all_cons slots_v20_Shrink (
+  all_cons slots_v20_Sigmoid (
+  all_cons slots_v20_Sign (
+  all_cons slots_v20_Sin (
+  all_cons slots_v20_Sinh (
+  all_cons slots_v20_Size (
+  all_cons slots_v20_Slice (
+  all_cons slots_v20_Softmax (
+  all_cons slots_v20_SoftmaxCrossEntropyLoss (
+  all_cons slots_v20_Softplus (
+  all_cons slots_v20_Softsign (
+  all_cons slots_v20_SpaceToDepth (
+  all_cons slots_v20_Split (
+  all_cons slots_v20_SplitToSequence (
+  all_cons slots_v20_Sqrt (
+  all_cons slots_v20_Squeeze (
+  all_cons slots_v20_StringConcat (
+  all_cons slots_v20_StringNormalizer (
+  all_cons slots_v20_StringSplit (
+  all_cons slots_v20_Sub (
+  all_cons slots_v20_Sum (
+  all_cons slots_v20_Tan (
+  all_cons slots_v20_Tanh (
+  all_cons slots_v20_TfIdfVectorizer (
+  all_cons slots_v20_ThresholdedRelu (
+  all_cons slots_v20_Tile (
+  all_cons slots_v20_TopK (
+  all_cons slots_v20_Transpose (
+  all_cons slots_v20_Trilu (
+  all_cons slots_v20_Unique (
+  all_cons slots_v20_Unsqueeze (
+  all_cons slots_v20_Where (
+  all_cons slots_v20_Xor (
+  all_nil)))))))))))))))))))))))))))))))))))))))))))))))))))))))))))))))))))))))))))))))))))))))))))))))))))))))))))))))))))))))))))))))))))))))))))))))))))))))))))))))))))))))))))))))))))))))))))))))
+
+theorem table_slots : ∀ e ∈ allEntries, slotOK e = true :=
+  fun e he => List.all_eq_true.mp slots_all e he
 
 /-- pairs with listed deviations (known findings), each with what is excepted -/
 def deviating : List (List String × Entry) :=
